@@ -3,7 +3,8 @@ From Trzsz Require Import Base.Bytes Gen.Consts Gen.Skel_rtunnel Model.TunnelSke
   Model.Tunnel Model.TunnelRelay Proofs.Tunnel.
 From Coq Require Import ZArith Lia.
 
-Ltac rproj := cbn [r_pairs r_lis r_apc r_connector r_trelay r_era r_tconnected r_parked] in *.
+Ltac rproj := cbn [r_pairs r_lis r_apc r_connector r_trelay r_era r_tconnected r_x] in *.
+Ltac xproj := cbn [x_status x_pc x_lock x_bufin x_bufout x_outin x_outout] in *.
 Ltac pproj := cbn [p_cli p_srv p_pc p_first p_sfirst p_br p_won] in *.
 Ltac eproj := cbn [e_script e_rx e_eof e_tx e_closed] in *.
 Ltac hproj := cbn [h_chan h_chan_closed h_writer h_pump h_log b_in b_out b_relay] in *.
@@ -91,14 +92,34 @@ Definition rt_GW (t : option nat) (era : nat) (ps : list rt_pair) : Prop :=
      p_won p1 = Some e -> p_won p2 = Some e -> c1 = c2) /\
   (forall c, t = Some c -> (c < length ps)%nat).
 
-Definition rt_PK (ps : list rt_pair) (k : list (rt_src * list N)) : Prop :=
-  forall x, In x k -> exists c p, (fst x = RsCli c \/ fst x = RsSrv c) /\ nth_error ps c = Some p /\ p_won p <> None.
+(* what may sit in a handshake buffer: in-band chunks that arrived while tunnelConnected was false, and chunks a
+   pump of the pair that IS in tunnelRelay read from its own connection (clients' in stdinBuffer, servers' in stdoutBuffer) *)
+Definition rt_buf_ok (t : option nat) (d : rt_dir) (x : rt_src * list N) : Prop :=
+  match fst x with
+  | RsRelay => False
+  | RsInband g => g = false
+  | RsCli c => d = RdIn /\ t = Some c
+  | RsSrv c => d = RdOut /\ t = Some c
+  end.
+
+Definition rt_flush_pc (pc : rt_hspc) : bool :=
+  match pc with HsFlushIn _ | HsFlushOut _ | HsFlushEnd _ => true | _ => false end.
+
+(* the relay's status word, handshake goroutine, buffers and in-band output *)
+Definition rt_X (t : option nat) (era : nat) (x : rt_hs) : Prop :=
+  (forall d y, In y (rt_buf d x) -> rt_buf_ok t d y) /\
+  (x_status x = StHandshaking <-> x_pc x <> HsIdle) /\
+  (x_lock x = rt_flush_pc (x_pc x)) /\
+  (x_status x <> StHandshaking -> x_bufin x = [] /\ x_bufout x = []) /\
+  (match x_pc x with HsFlushOut _ => x_bufin x = [] | HsFlushEnd _ => x_bufin x = [] /\ x_bufout x = [] | _ => True end) /\
+  (x_status x = StHandshaking -> era = 0%nat) /\
+  (forall d o, In o (rt_outs d x) -> rt_is_tunnel_src (fst (fst o)) = true -> snd o = false).
 
 Definition rt_ACC (a : rt_apc) (ps : list rt_pair) : Prop :=
   forall c, a = RaCheck c -> exists p, nth_error ps c = Some p /\ p_pc p = RtAccepted.
 
 Definition RInv (s : rt_state) : Prop :=
-  rt_L (r_pairs s) /\ rt_GW (r_trelay s) (r_era s) (r_pairs s) /\ rt_PK (r_pairs s) (r_parked s) /\
+  rt_L (r_pairs s) /\ rt_GW (r_trelay s) (r_era s) (r_pairs s) /\ rt_X (r_trelay s) (r_era s) (r_x s) /\
   rt_ACC (r_apc s) (r_pairs s).
 
 Lemma RInv_init : RInv rt_init.
@@ -110,7 +131,9 @@ Proof.
     + intros c p e H. destruct c; discriminate H.
     + intros c1 c2 p1 p2 e H. destruct c1; discriminate H.
     + intros c H. discriminate H.
-  - intros x H. destruct H.
+  - unfold rt_X, rt_hs_init. xproj. split; [intros d y H; destruct d; destruct H|].
+    split; [split; [discriminate|reflexivity]|]. split; [reflexivity|]. split; [intros H; exfalso; apply H; reflexivity|].
+    split; [exact I|]. split; [reflexivity|]. intros d o H. destruct d; destruct H.
   - intros c H. discriminate H.
 Qed.
 
@@ -146,14 +169,11 @@ Proof.
   - intros c' H. rewrite length_upd. exact (G4 c' H).
 Qed.
 
-Lemma rt_PK_upd : forall ps k c f,
-  rt_PK ps k -> (forall p, nth_error ps c = Some p -> p_won (f p) = p_won p) -> rt_PK (upd c f ps) k.
+(* the compare-and-swap succeeds: nothing of a tunnel can have been parked before *)
+Lemma rt_X_adopt : forall c era x, rt_X None era x -> rt_X (Some c) era x.
 Proof.
-  intros ps k c f HP Hf x Hx. destruct (HP x Hx) as (c' & p & Hor & Hn & Hw).
-  exists c'. rewrite nth_upd. destruct (Nat.eqb c c') eqn:E.
-  - apply Nat.eqb_eq in E. subst c'.
-    exists (f p). split; [exact Hor|]. rewrite Hn. cbn [option_map]. split; [reflexivity|]. rewrite (Hf p Hn). exact Hw.
-  - exists p. auto.
+  intros c era x (X1 & X2). split; [|exact X2]. intros d y Hy. specialize (X1 d y Hy).
+  unfold rt_buf_ok in *. destruct (fst y); try exact X1; destruct X1 as [_ X1]; discriminate X1.
 Qed.
 
 Lemma rt_ACC_upd : forall a ps c f,
@@ -177,7 +197,7 @@ Lemma RInv_upd : forall s c f,
 Proof.
   intros s c f (HL & HG & HP & HA) Hl Hw Hpc. unfold RInv, rt_upd_pair, rt_with_pairs. rproj.
   split; [apply rt_L_upd; assumption|]. split; [apply rt_GW_upd; assumption|].
-  split; [apply rt_PK_upd; assumption|apply rt_ACC_upd; assumption].
+  split; [exact HP|apply rt_ACC_upd; assumption].
 Qed.
 
 (* ------------------------------------------------------------------------------------ *)
@@ -400,10 +420,7 @@ Proof.
            ++ rewrite Hw2 in W2. injection W2 as <-. exfalso. exact (Hnone c1 p1 Hn1 W1).
            ++ exact (G3 c1 c2 p1 p2 e Hn1 Hn2 W1 W2).
         -- intros c' H. injection H as <-. rewrite length_upd. eapply nth_error_lt. exact Ep.
-      * intros x Hx. destruct (HP x Hx) as (c' & p' & Hor & Hn & Hw). exists c'. rewrite nth_upd.
-        destruct (Nat.eqb c c') eqn:E.
-        -- rewrite Hn. cbn [option_map]. eexists. split; [exact Hor|]. split; [reflexivity|]. pproj. discriminate.
-        -- exists p'. auto.
+      * exact (rt_X_adopt _ _ _ HP).
       * apply rt_ACC_upd; [exact HA|]. intros p0 Hp0 Hpc0. rewrite Ep in Hp0. injection Hp0 as <-.
         rewrite Epc in Hpc0. discriminate Hpc0.
   - (* RtStoreRelay *)
@@ -421,7 +438,7 @@ Proof.
     + apply rt_L_upd; [exact HL|]. intros p0 Hp0 Hl0. rewrite Ep in Hp0. injection Hp0 as <-.
       unfold rt_local in *. rewrite Epc in Hl0. setters. pproj. unf. pproj. exact Hl0.
     + apply rt_GW_upd; [exact HG|]. intros p0 _. reflexivity.
-    + apply rt_PK_upd; [exact HP|]. intros p0 _. reflexivity.
+    + exact HP.
     + apply rt_ACC_upd; [exact HA|]. intros p0 Hp0 Hpc0. rewrite Ep in Hp0. injection Hp0 as <-.
       rewrite Epc in Hpc0. discriminate Hpc0.
   - (* RtCloseC *)
@@ -431,268 +448,6 @@ Proof.
     destruct (p_br p) as [b|] eqn:Eb; [|discriminate Hstep]. injection Hstep as <-. hstep Hinv Ep Epc.
     rewrite Eb in *. dex. hproj. splits; eauto.
 Qed.
-
-Lemma rt_end_peer_same : forall e e', rt_end_peer e = Some e' -> e_tx e' = e_tx e /\ e_closed e' = e_closed e.
-Proof.
-  intros e e' H. unfold rt_end_peer in H. destruct (e_script e) as [|[bs|] r]; [discriminate H| |];
-    injection H as <-; eproj; split; reflexivity.
-Qed.
-
-Lemma rt_local_set_src_drop : forall c p d e n,
-  rt_src_end d p = Some e -> rt_local c p -> rt_local c (rt_set_src_end d (rt_end_drop n e) p).
-Proof.
-  intros c p d e n He Hl. destruct d; cbn [rt_src_end rt_set_src_end] in *.
-  - injection He as <-. apply rt_local_set_cli; [reflexivity| |exact Hl]. intros H. exact H.
-  - apply (rt_local_set_srv c p e); [exact He|reflexivity| |exact Hl]. intros H. exact H.
-Qed.
-
-Lemma rt_local_set_dst_close : forall c p d e,
-  rt_dst_end d p = Some e -> rt_local c p -> rt_local c (rt_set_dst_end d (rt_end_close e) p).
-Proof.
-  intros c p d e He Hl. destruct d; cbn [rt_dst_end rt_set_dst_end] in *.
-  - apply (rt_local_set_srv c p e); [exact He|reflexivity| |exact Hl]. intros _. reflexivity.
-  - injection He as <-. apply rt_local_set_cli; [reflexivity| |exact Hl]. intros _. reflexivity.
-Qed.
-
-Lemma rt_trelay_won : forall s c p, RInv s -> r_trelay s = Some c -> nth_error (r_pairs s) c = Some p -> p_won p <> None.
-Proof.
-  intros s c p (_ & (G1 & _) & _) Ht Hn. apply (G1 c p Hn) in Ht. rewrite Ht. discriminate.
-Qed.
-
-Lemma rt_step_inv : forall s l s', RInv s -> rt_step ch1 sh4 ch2 sh3 s l = Some s' -> RInv s'.
-Proof.
-  intros s l s' Hinv Hstep.
-  destruct l as [script|c|c|c| | |c dial fail|c d|c d n park|c d|c d|c d|v|v|d bs| ]; unfold rt_step in Hstep.
-  - (* RLConnect *)
-    injection Hstep as <-. destruct Hinv as (HL & (G1 & G2 & G3 & G4) & HP & HA).
-    unfold RInv, rt_with_pairs. rproj.
-    assert (Hnew : forall c p, nth_error (r_pairs s ++ [rt_new_pair script (if r_lis s then RtPending else RtRefused)]) c = Some p ->
-              nth_error (r_pairs s) c = Some p \/ (c = length (r_pairs s) /\ p_won p = None /\ rt_local c p)).
-    { intros c p Hn. apply nth_error_app_last in Hn. destruct Hn as [Hn|[-> ->]]; [left; exact Hn|right].
-      split; [reflexivity|]. split; [reflexivity|]. unfold rt_local, rt_new_pair. pproj.
-      destruct (r_lis s); unf; pproj; eproj; splits; reflexivity. }
-    split; [|split; [|split]].
-    + intros c p Hn. destruct (Hnew c p Hn) as [H|(_ & _ & H)]; [exact (HL c p H)|exact H].
-    + unfold rt_GW. split; [|split; [|split]].
-      * intros c p Hn. destruct (Hnew c p Hn) as [H|(-> & Hw & _)]; [exact (G1 c p H)|].
-        rewrite Hw. split; intros H; [|discriminate H]. apply G4 in H. lia.
-      * intros c p e Hn Hw. destruct (Hnew c p Hn) as [H|(_ & Hw' & _)]; [exact (G2 c p e H Hw)|congruence].
-      * intros c1 c2 p1 p2 e H1 H2 W1 W2.
-        destruct (Hnew c1 p1 H1) as [H1'|(_ & Hw1 & _)]; [|congruence].
-        destruct (Hnew c2 p2 H2) as [H2'|(_ & Hw2 & _)]; [|congruence].
-        exact (G3 c1 c2 p1 p2 e H1' H2' W1 W2).
-      * intros c H. rewrite app_length. apply G4 in H. lia.
-    + intros x Hx. destruct (HP x Hx) as (c & p & Hor & Hn & Hw). exists c, p. split; [exact Hor|]. split; [|exact Hw].
-      rewrite nth_error_app1; [exact Hn|]. eapply nth_error_lt. exact Hn.
-    + intros c H. destruct (HA c H) as (p & Hn & Hpc). exists p. split; [|exact Hpc].
-      rewrite nth_error_app1; [exact Hn|]. eapply nth_error_lt. exact Hn.
-  - (* RLPeerC *)
-    destruct (nth_error (r_pairs s) c) as [p|] eqn:Ep; [|discriminate Hstep].
-    destruct (rt_end_peer (p_cli p)) as [e|] eqn:Ee; [|discriminate Hstep]. injection Hstep as <-.
-    destruct (rt_end_peer_same _ _ Ee) as [Htx Hcl].
-    apply RInv_upd; [exact Hinv| | |].
-    + intros p0 Hp0 Hl0. rewrite Ep in Hp0. injection Hp0 as <-. apply rt_local_set_cli; [exact Htx|rewrite Hcl; auto|exact Hl0].
-    + intros p0 _. reflexivity.
-    + intros p0 _ H. exact H.
-  - (* RLPeerS *)
-    destruct (nth_error (r_pairs s) c) as [p|] eqn:Ep; [|discriminate Hstep].
-    destruct (p_srv p) as [e0|] eqn:Es; [|discriminate Hstep].
-    destruct (rt_end_peer e0) as [e|] eqn:Ee; [|discriminate Hstep]. injection Hstep as <-.
-    destruct (rt_end_peer_same _ _ Ee) as [Htx Hcl].
-    apply RInv_upd; [exact Hinv| | |].
-    + intros p0 Hp0 Hl0. rewrite Ep in Hp0. injection Hp0 as <-. apply (rt_local_set_srv c p e0); [exact Es|exact Htx|rewrite Hcl; auto|exact Hl0].
-    + intros p0 _. reflexivity.
-    + intros p0 _ H. exact H.
-  - (* RLAccept *)
-    destruct (r_apc s) eqn:Ea; try discriminate Hstep. destruct (r_lis s); try discriminate Hstep.
-    destruct (nth_error (r_pairs s) c) as [p|] eqn:Ep; [|discriminate Hstep].
-    destruct (p_pc p) eqn:Epc; try discriminate Hstep. injection Hstep as <-.
-    destruct Hinv as (HL & HG & HP & HA). unfold RInv. rproj. split; [|split; [|split]].
-    + apply rt_L_upd; [exact HL|]. intros p0 Hp0 Hl0. rewrite Ep in Hp0. injection Hp0 as <-.
-      unfold rt_local, rt_set_pc in *. pproj. rewrite Epc in Hl0. exact Hl0.
-    + apply rt_GW_upd; [exact HG|]. intros p0 _. reflexivity.
-    + apply rt_PK_upd; [exact HP|]. intros p0 _. reflexivity.
-    + intros c0 H. injection H as <-. rewrite nth_upd_same, Ep. cbn [option_map]. eexists. split; reflexivity.
-  - (* RLAcceptErr *)
-    destruct (r_apc s) eqn:Ea; try discriminate Hstep. destruct (r_lis s); try discriminate Hstep.
-    injection Hstep as <-. destruct Hinv as (HL & HG & HP & HA). unfold RInv. rproj.
-    split; [exact HL|]. split; [exact HG|]. split; [exact HP|]. intros c0 H. discriminate H.
-  - (* RLCheck *)
-    destruct (r_apc s) as [|c|] eqn:Ea; try discriminate Hstep.
-    destruct Hinv as (HL & HG & HP & HA). destruct (HA c Ea) as (p & Ep & Epc).
-    destruct (r_trelay s) as [t|] eqn:Et; injection Hstep as <-; unfold RInv; rproj; (split; [|split; [|split]]).
-    + apply rt_L_upd; [exact HL|]. intros p0 Hp0 Hl0. rewrite Ep in Hp0. injection Hp0 as <-.
-      unfold rt_local in *. rewrite Epc in Hl0. setters. pproj. unf. pproj. dex. fin p.
-    + apply rt_GW_upd; [exact HG|]. intros p0 _. setters. destruct (p_srv p0); reflexivity.
-    + apply rt_PK_upd; [exact HP|]. intros p0 _. setters. destruct (p_srv p0); reflexivity.
-    + intros c0 H. discriminate H.
-    + apply rt_L_upd; [exact HL|]. intros p0 Hp0 Hl0. rewrite Ep in Hp0. injection Hp0 as <-.
-      unfold rt_local, rt_set_pc in *. pproj. rewrite Epc in Hl0. exact Hl0.
-    + apply rt_GW_upd; [exact HG|]. intros p0 _. reflexivity.
-    + apply rt_PK_upd; [exact HP|]. intros p0 _. reflexivity.
-    + intros c0 H. discriminate H.
-  - (* RLHandler *)
-    destruct (nth_error (r_pairs s) c) as [p|] eqn:Ep; [|discriminate Hstep].
-    exact (rt_handler_inv s c p dial fail s' Hinv Ep Hstep).
-  - (* RLWriter *)
-    destruct (nth_error (r_pairs s) c) as [p|] eqn:Ep; [|discriminate Hstep].
-    destruct (p_br p) as [b|] eqn:Eb; [|discriminate Hstep].
-    destruct (rt_dst_end d p) as [e|] eqn:Ee; [|discriminate Hstep].
-    destruct (h_writer (rt_half_of d b)) eqn:Ew; [|discriminate Hstep].
-    destruct (h_chan (rt_half_of d b)) as [|x rest] eqn:Ech.
-    + destruct (h_chan_closed (rt_half_of d b)) eqn:Ecl; [|discriminate Hstep]. injection Hstep as <-.
-      apply RInv_upd; [exact Hinv| | |].
-      * intros p0 Hp0 Hl0. rewrite Ep in Hp0. injection Hp0 as <-. apply rt_local_writer_exit; assumption.
-      * intros p0 _. destruct d; cbn [rt_set_dst_end]; reflexivity.
-      * intros p0 _ H. destruct d; cbn [rt_set_dst_end]; exact H.
-    + destruct (e_closed e); injection Hstep as <-; (apply RInv_upd; [exact Hinv| | |]).
-      * intros p0 Hp0 Hl0. rewrite Ep in Hp0. injection Hp0 as <-.
-        apply rt_local_set_half; [exact Eb|reflexivity|try reflexivity| | | | |exact Hl0]; hproj; auto.
-        -- rewrite Ech. cbn [forallb]. intros H. apply andb_true_iff in H. exact (proj2 H).
-        -- intros _ (H & _). rewrite Ech in H. discriminate H.
-      * intros p0 _. reflexivity.
-      * intros p0 _ H. exact H.
-      * intros p0 Hp0 Hl0. rewrite Ep in Hp0. injection Hp0 as <-. apply rt_local_writer_write; assumption.
-      * intros p0 _. destruct d; cbn [rt_set_dst_end]; reflexivity.
-      * intros p0 _ H. destruct d; cbn [rt_set_dst_end]; exact H.
-  - (* RLPump *)
-    destruct (nth_error (r_pairs s) c) as [p|] eqn:Ep; [|discriminate Hstep].
-    destruct (p_br p) as [b|] eqn:Eb; [|discriminate Hstep].
-    destruct (rt_src_end d p) as [e|] eqn:Ee; [|discriminate Hstep].
-    destruct (h_pump (rt_half_of d b)) eqn:Epm; try discriminate Hstep.
-    match type of Hstep with (if ?x then _ else _) = _ => destruct x end; [|discriminate Hstep].
-    destruct park.
-    + destruct (b_relay b); [|discriminate Hstep]. injection Hstep as <-.
-      destruct Hinv as (HL & HG & HP & HA). unfold RInv. rproj. split; [|split; [|split]].
-      * apply rt_L_upd; [exact HL|]. intros p0 Hp0 Hl0. rewrite Ep in Hp0. injection Hp0 as <-.
-        apply rt_local_set_src_drop; assumption.
-      * apply rt_GW_upd; [exact HG|]. intros p0 _. destruct d; reflexivity.
-      * assert (Hwon : p_won p <> None).
-        { pose proof (HL c p Ep) as Hl. unfold rt_local in Hl. intros Hw.
-          pcs p; unf; rewrite Eb in *; dex; try discriminate; try contradiction;
-            destruct d; cbn [rt_half_of] in *; congruence. }
-        intros x Hx. apply in_app_or in Hx. destruct Hx as [Hx|[<-|[]]].
-        -- destruct (HP x Hx) as (c' & p' & Hor & Hn & Hw). exists c'. rewrite nth_upd.
-           destruct (Nat.eqb c c') eqn:E.
-           ++ apply Nat.eqb_eq in E. subst c'. rewrite Hn. cbn [option_map]. eexists. split; [exact Hor|].
-              split; [reflexivity|]. rewrite Ep in Hn. injection Hn as <-. destruct d; exact Hw.
-           ++ exists p'. auto.
-        -- exists c. rewrite nth_upd_same, Ep. cbn [option_map fst]. eexists.
-           split; [destruct d; cbn [rt_tag]; auto|]. split; [reflexivity|]. destruct d; exact Hwon.
-      * apply rt_ACC_upd; [exact HA|]. intros p0 _ H. destruct d; exact H.
-    + destruct (rt_chan_has_room (rt_half_of d b)); [|discriminate Hstep]. injection Hstep as <-.
-      apply RInv_upd; [exact Hinv| | |].
-      * intros p0 Hp0 Hl0. rewrite Ep in Hp0. injection Hp0 as <-. apply rt_local_set_src_drop.
-        { destruct d; cbn [rt_src_end] in *; unfold rt_set_br; pproj; exact Ee. }
-        apply rt_local_set_half; [exact Eb|reflexivity|try reflexivity| | | | |exact Hl0]; unfold rt_half_push; hproj; auto.
-        -- intros H. rewrite rt_forallb_snoc, H, rt_tag_ok_own. reflexivity.
-        -- intros _ (_ & _ & H). congruence.
-      * intros p0 _. destruct d; reflexivity.
-      * intros p0 _ H. destruct d; exact H.
-  - (* RLPumpEof *)
-    destruct (nth_error (r_pairs s) c) as [p|] eqn:Ep; [|discriminate Hstep].
-    destruct (p_br p) as [b|] eqn:Eb; [|discriminate Hstep].
-    destruct (rt_src_end d p) as [e|] eqn:Ee; [|discriminate Hstep].
-    destruct (h_pump (rt_half_of d b)) eqn:Epm; try discriminate Hstep.
-    destruct (e_rx e); [|discriminate Hstep].
-    match type of Hstep with (if ?x then _ else _) = _ => destruct x end; [|discriminate Hstep].
-    injection Hstep as <-. apply RInv_upd; [exact Hinv| | |].
-    + intros p0 Hp0 Hl0. rewrite Ep in Hp0. injection Hp0 as <-.
-      apply rt_local_set_half; [exact Eb|reflexivity|try reflexivity| | | | |exact Hl0]; unfold rt_half_set_pump; hproj; auto.
-      * intros H. congruence.
-      * intros _ (_ & _ & H). congruence.
-    + intros p0 _. reflexivity.
-    + intros p0 _ H. exact H.
-  - (* RLPumpExit *)
-    destruct (nth_error (r_pairs s) c) as [p|] eqn:Ep; [|discriminate Hstep].
-    destruct (p_br p) as [b|] eqn:Eb; [|discriminate Hstep].
-    destruct (h_pump (rt_half_of d b)) eqn:Epm; try discriminate Hstep.
-    destruct (b_relay b); [discriminate Hstep|].
-    injection Hstep as <-. apply RInv_upd; [exact Hinv| | |].
-    + intros p0 Hp0 Hl0. rewrite Ep in Hp0. injection Hp0 as <-.
-      apply rt_local_set_half; [exact Eb|reflexivity|try reflexivity| | | | |exact Hl0];
-        unfold rt_half_set_pump, rt_half_close_chan; hproj; auto.
-      * intros H. congruence.
-      * intros _ (_ & _ & H). congruence.
-    + intros p0 _. reflexivity.
-    + intros p0 _ H. exact H.
-  - (* RLPumpSpin *)
-    destruct (nth_error (r_pairs s) c) as [p|] eqn:Ep; [|discriminate Hstep].
-    destruct (p_br p) as [b|] eqn:Eb; [|discriminate Hstep].
-    destruct (rt_src_end d p) as [e|] eqn:Ee; [|discriminate Hstep].
-    destruct (h_pump (rt_half_of d b)); try discriminate Hstep.
-    destruct (e_closed e); [|discriminate Hstep]. injection Hstep as <-. exact Hinv.
-  - (* RLSetConnector *)
-    injection Hstep as <-. exact Hinv.
-  - (* RLActFlag *)
-    injection Hstep as <-. exact Hinv.
-  - (* RLInject *)
-    destruct (r_trelay s) as [c|] eqn:Et; [|discriminate Hstep].
-    destruct (r_tconnected s); [|discriminate Hstep].
-    destruct (nth_error (r_pairs s) c) as [p|] eqn:Ep; [|discriminate Hstep].
-    destruct (p_br p) as [b|] eqn:Eb; [|discriminate Hstep].
-    destruct (rt_chan_has_room (rt_half_of d b)); [|discriminate Hstep].
-    injection Hstep as <-. pose proof (rt_trelay_won s c p Hinv Et Ep) as Hwon.
-    apply RInv_upd; [exact Hinv| | |].
-    + intros p0 Hp0 Hl0. rewrite Ep in Hp0. injection Hp0 as <-.
-      apply rt_local_set_half; [exact Eb|reflexivity|try reflexivity| | | | |exact Hl0]; unfold rt_half_push; hproj; auto.
-      * intros H. rewrite rt_forallb_snoc, H, rt_tag_ok_relay. reflexivity.
-      * intros H. contradiction.
-    + intros p0 _. reflexivity.
-    + intros p0 _ H. exact H.
-  - (* RLReset *)
-    injection Hstep as <-. destruct Hinv as (HL & (G1 & G2 & G3 & G4) & HP & HA).
-    set (f := fun p : rt_pair => match p_br p with Some b => rt_set_br (rt_set_relay false b) p | None => p end).
-    assert (Hfw : forall p, p_won (f p) = p_won p) by (intros p; unfold f; destruct (p_br p); reflexivity).
-    assert (Hfpc : forall p, p_pc (f p) = p_pc p) by (intros p; unfold f; destruct (p_br p); reflexivity).
-    assert (Hfl : forall c p, rt_local c p -> rt_local c (f p)).
-    { intros c p Hl. unfold f. destruct (p_br p) as [b|] eqn:Eb; [|exact Hl].
-      apply rt_local_set_relay; [exact Eb|left; reflexivity|exact Hl]. }
-    set (ps := match r_trelay s with Some c => upd c f (r_pairs s) | None => r_pairs s end).
-    assert (Hback : forall c p', nth_error ps c = Some p' ->
-              exists p, nth_error (r_pairs s) c = Some p /\ p_won p' = p_won p /\ p_pc p' = p_pc p /\ (rt_local c p -> rt_local c p')).
-    { intros c p' Hn. unfold ps in Hn. destruct (r_trelay s) as [t|].
-      - rewrite nth_upd in Hn. destruct (Nat.eqb t c).
-        + destruct (nth_error (r_pairs s) c) as [p|]; [|discriminate Hn]. cbn [option_map] in Hn. injection Hn as <-.
-          exists p. split; [reflexivity|]. split; [apply Hfw|]. split; [apply Hfpc|apply Hfl].
-        + exists p'. auto.
-      - exists p'. auto. }
-    assert (Hlen : length ps = length (r_pairs s)).
-    { unfold ps. destruct (r_trelay s); [apply length_upd|reflexivity]. }
-    unfold RInv. rproj. fold f. fold ps. split; [|split; [|split]].
-    + intros c p' Hn. destruct (Hback c p' Hn) as (p & Hp & _ & _ & Hl). apply Hl. exact (HL c p Hp).
-    + unfold rt_GW. split; [|split; [|split]].
-      * intros c p' Hn. destruct (Hback c p' Hn) as (p & Hp & Hw & _). rewrite Hw. split; intros H; [discriminate H|].
-        apply (G2 c p _ Hp) in H. lia.
-      * intros c p' e Hn Hwon. destruct (Hback c p' Hn) as (p & Hp & Hw & _). rewrite Hw in Hwon.
-        apply (G2 c p e Hp) in Hwon. lia.
-      * intros c1 c2 p1 p2 e H1 H2 W1 W2.
-        destruct (Hback c1 p1 H1) as (q1 & Hq1 & Hw1 & _). destruct (Hback c2 p2 H2) as (q2 & Hq2 & Hw2 & _).
-        rewrite Hw1 in W1. rewrite Hw2 in W2. exact (G3 c1 c2 q1 q2 e Hq1 Hq2 W1 W2).
-      * intros c H. discriminate H.
-    + intros x Hx. destruct (HP x Hx) as (c & p & Hor & Hn & Hw). exists c.
-      unfold ps. destruct (r_trelay s) as [t|].
-      * rewrite nth_upd. destruct (Nat.eqb t c).
-        -- rewrite Hn. cbn [option_map]. exists (f p). split; [exact Hor|]. split; [reflexivity|]. rewrite Hfw. exact Hw.
-        -- exists p. auto.
-      * exists p. auto.
-    + intros c H. destruct (HA c H) as (p & Hn & Hpc). unfold ps. destruct (r_trelay s) as [t|].
-      * rewrite nth_upd. destruct (Nat.eqb t c).
-        -- rewrite Hn. cbn [option_map]. exists (f p). split; [reflexivity|]. rewrite Hfpc. exact Hpc.
-        -- exists p. auto.
-      * exists p. auto.
-Qed.
-
-Lemma rt_run_inv : forall ls s s', RInv s -> rt_run ch1 sh4 ch2 sh3 s ls = Some s' -> RInv s'.
-Proof.
-  induction ls as [|l ls IH]; intros s s' Hinv Hrun; cbn [rt_run] in Hrun.
-  - injection Hrun as <-. exact Hinv.
-  - destruct (rt_step ch1 sh4 ch2 sh3 s l) as [s1|] eqn:E; [|discriminate Hrun].
-    apply (IH s1 s'); [|exact Hrun]. exact (rt_step_inv s l s1 Hinv E).
-Qed.
-
-Lemma rt_reach_inv : forall s, rt_reach ch1 sh4 ch2 sh3 s -> RInv s.
-Proof. intros s [ls H]. exact (rt_run_inv ls rt_init s RInv_init H). Qed.
 
 (* ------------------------------------------------------------------------------------ *)
 (* what the per-pair invariant says, program point forgotten *)
@@ -751,6 +506,491 @@ Proof.
     try (right; auto; fail); try (split; [assumption|]; intros Hs; try assumption; congruence).
 Qed.
 
+Lemma rt_end_peer_same : forall e e', rt_end_peer e = Some e' -> e_tx e' = e_tx e /\ e_closed e' = e_closed e.
+Proof.
+  intros e e' H. unfold rt_end_peer in H. destruct (e_script e) as [|[bs|] r]; [discriminate H| |];
+    injection H as <-; eproj; split; reflexivity.
+Qed.
+
+Lemma rt_local_set_src_drop : forall c p d e n,
+  rt_src_end d p = Some e -> rt_local c p -> rt_local c (rt_set_src_end d (rt_end_drop n e) p).
+Proof.
+  intros c p d e n He Hl. destruct d; cbn [rt_src_end rt_set_src_end] in *.
+  - injection He as <-. apply rt_local_set_cli; [reflexivity| |exact Hl]. intros H. exact H.
+  - apply (rt_local_set_srv c p e); [exact He|reflexivity| |exact Hl]. intros H. exact H.
+Qed.
+
+Lemma rt_local_set_dst_close : forall c p d e,
+  rt_dst_end d p = Some e -> rt_local c p -> rt_local c (rt_set_dst_end d (rt_end_close e) p).
+Proof.
+  intros c p d e He Hl. destruct d; cbn [rt_dst_end rt_set_dst_end] in *.
+  - apply (rt_local_set_srv c p e); [exact He|reflexivity| |exact Hl]. intros _. reflexivity.
+  - injection He as <-. apply rt_local_set_cli; [reflexivity| |exact Hl]. intros _. reflexivity.
+Qed.
+
+Lemma rt_trelay_won : forall s c p, RInv s -> r_trelay s = Some c -> nth_error (r_pairs s) c = Some p -> p_won p <> None.
+Proof.
+  intros s c p (_ & (G1 & _) & _) Ht Hn. apply (G1 c p Hn) in Ht. rewrite Ht. discriminate.
+Qed.
+
+Lemma rt_reset_inv : forall s x, RInv s -> rt_X None (S (r_era s)) x -> RInv (rt_reset s x).
+Proof.
+  intros s x Hinv HX. destruct Hinv as (HL & (G1 & G2 & G3 & G4) & HP & HA).
+    set (f := fun p : rt_pair => match p_br p with Some b => rt_set_br (rt_set_relay false b) p | None => p end).
+    assert (Hfw : forall p, p_won (f p) = p_won p) by (intros p; unfold f; destruct (p_br p); reflexivity).
+    assert (Hfpc : forall p, p_pc (f p) = p_pc p) by (intros p; unfold f; destruct (p_br p); reflexivity).
+    assert (Hfl : forall c p, rt_local c p -> rt_local c (f p)).
+    { intros c p Hl. unfold f. destruct (p_br p) as [b|] eqn:Eb; [|exact Hl].
+      apply rt_local_set_relay; [exact Eb|left; reflexivity|exact Hl]. }
+    set (ps := match r_trelay s with Some c => upd c f (r_pairs s) | None => r_pairs s end).
+    assert (Hback : forall c p', nth_error ps c = Some p' ->
+              exists p, nth_error (r_pairs s) c = Some p /\ p_won p' = p_won p /\ p_pc p' = p_pc p /\ (rt_local c p -> rt_local c p')).
+    { intros c p' Hn. unfold ps in Hn. destruct (r_trelay s) as [t|].
+      - rewrite nth_upd in Hn. destruct (Nat.eqb t c).
+        + destruct (nth_error (r_pairs s) c) as [p|]; [|discriminate Hn]. cbn [option_map] in Hn. injection Hn as <-.
+          exists p. split; [reflexivity|]. split; [apply Hfw|]. split; [apply Hfpc|apply Hfl].
+        + exists p'. auto.
+      - exists p'. auto. }
+    assert (Hlen : length ps = length (r_pairs s)).
+    { unfold ps. destruct (r_trelay s); [apply length_upd|reflexivity]. }
+    unfold RInv, rt_reset. rproj. fold f. fold ps. split; [|split; [|split]].
+    + intros c p' Hn. destruct (Hback c p' Hn) as (p & Hp & _ & _ & Hl). apply Hl. exact (HL c p Hp).
+    + unfold rt_GW. split; [|split; [|split]].
+      * intros c p' Hn. destruct (Hback c p' Hn) as (p & Hp & Hw & _). rewrite Hw. split; intros H; [discriminate H|].
+        apply (G2 c p _ Hp) in H. lia.
+      * intros c p' e Hn Hwon. destruct (Hback c p' Hn) as (p & Hp & Hw & _). rewrite Hw in Hwon.
+        apply (G2 c p e Hp) in Hwon. lia.
+      * intros c1 c2 p1 p2 e H1 H2 W1 W2.
+        destruct (Hback c1 p1 H1) as (q1 & Hq1 & Hw1 & _). destruct (Hback c2 p2 H2) as (q2 & Hq2 & Hw2 & _).
+        rewrite Hw1 in W1. rewrite Hw2 in W2. exact (G3 c1 c2 q1 q2 e Hq1 Hq2 W1 W2).
+      * intros c H. discriminate H.
+    + exact HX.
+    + intros c H. destruct (HA c H) as (p & Hn & Hpc). unfold ps. destruct (r_trelay s) as [t|].
+      * rewrite nth_upd. destruct (Nat.eqb t c).
+        -- rewrite Hn. cbn [option_map]. exists (f p). split; [reflexivity|]. rewrite Hfpc. exact Hpc.
+        -- exists p. auto.
+      * exists p. auto.
+Qed.
+
+(* ---- the status word, the handshake goroutine and the buffers ---- *)
+
+Ltac xunf := unfold rt_X, rt_set_pc_lock, rt_set_buf, rt_add_out, rt_hs_finish, rt_set_status, rt_buf, rt_outs in *.
+
+Lemma rt_X_add_out : forall t era x d o, rt_X t era x ->
+  (rt_is_tunnel_src (fst (fst o)) = true -> snd o = false) -> rt_X t era (rt_add_out d o x).
+Proof.
+  intros t era x d o (X1 & X2 & X3 & X4 & X5 & X6 & X7) Ho. unfold rt_X.
+  split; [intros d' y Hy; apply (X1 d'); destruct d, d'; exact Hy|].
+  split; [destruct d; exact X2|]. split; [destruct d; exact X3|]. split; [destruct d; exact X4|].
+  split; [destruct d; exact X5|]. split; [destruct d; exact X6|].
+  intros d' o' Ho'. destruct d, d'; cbn [rt_add_out rt_outs] in Ho'; xproj;
+    try (apply in_app_or in Ho'; destruct Ho' as [Ho'|[<-|[]]]; [|exact Ho]);
+    first [exact (X7 RdIn o' Ho') | exact (X7 RdOut o' Ho')].
+Qed.
+
+(* addHandshakeBuffer takes a chunk (bufferLock free, the relay handshaking) *)
+Lemma rt_X_park : forall t era x d y, rt_X t era x -> x_lock x = false -> x_status x = StHandshaking ->
+  rt_buf_ok t d y -> rt_X t era (rt_set_buf d (rt_buf d x ++ [y]) x).
+Proof.
+  intros t era x d y (X1 & X2 & X3 & X4 & X5 & X6 & X7) Hlk Hst Hy. unfold rt_X.
+  assert (Hnf : rt_flush_pc (x_pc x) = false) by (rewrite <- X3; exact Hlk).
+  split.
+  { intros d' y' Hy'. destruct d, d'; cbn [rt_set_buf rt_buf] in Hy'; xproj;
+      try (apply in_app_or in Hy'; destruct Hy' as [Hy'|[<-|[]]]; [|exact Hy]);
+      first [exact (X1 RdIn y' Hy') | exact (X1 RdOut y' Hy')]. }
+  split; [destruct d; exact X2|]. split; [destruct d; exact X3|].
+  split; [intros H; destruct d; cbn [rt_set_buf] in H; xproj; congruence|].
+  split; [destruct d; cbn [rt_set_buf]; xproj; destruct (x_pc x); try exact I; discriminate Hnf|].
+  split; [destruct d; exact X6|]. intros d' o Ho. apply (X7 d'). destruct d, d'; exact Ho.
+Qed.
+
+Lemma rt_drop_bytes_in : forall k b y, In y (rt_drop_bytes k b) -> exists y0, In y0 b /\ fst y0 = fst y.
+Proof.
+  intros k b. revert k. induction b as [|[src bs] r IH]; intros k y Hy.
+  - destruct k; destruct Hy.
+  - destruct k as [|k]; [exists y; split; [exact Hy|reflexivity]|].
+    cbn [rt_drop_bytes] in Hy. destruct (length bs <=? S k)%nat.
+    + destruct (IH _ y Hy) as (y0 & H0 & H1). exists y0. split; [right; exact H0|exact H1].
+    + destruct Hy as [<-|Hy]; [exists (src, bs); split; [left; reflexivity|reflexivity]|].
+      exists y. split; [right; exact Hy|reflexivity].
+Qed.
+
+(* a readLine of the handshake goroutine: bytes leave the front of a buffer, the goroutine moves on *)
+Lemma rt_X_read : forall t era x d k pc, rt_X t era x ->
+  (d = RdIn /\ x_pc x = HsRecvAct) \/ (d = RdOut /\ x_pc x = HsRecvCfg) \/ x_pc x = HsRecvAct \/ x_pc x = HsRecvCfg ->
+  pc <> HsIdle -> rt_flush_pc pc = false ->
+  rt_X t era (rt_set_pc_lock pc false (rt_set_buf d (rt_drop_bytes k (rt_buf d x)) x)).
+Proof.
+  intros t era x d k pc (X1 & X2 & X3 & X4 & X5 & X6 & X7) Hpc Hni Hnf. unfold rt_X.
+  assert (Hst : x_status x = StHandshaking).
+  { apply X2. destruct Hpc as [[_ H]|[[_ H]|[H|H]]]; rewrite H; discriminate. }
+  split.
+  { intros d' y Hy. destruct d, d'; unfold rt_set_pc_lock, rt_set_buf, rt_buf in Hy; xproj;
+      try (apply rt_drop_bytes_in in Hy; destruct Hy as (y0 & H0 & H1); unfold rt_buf_ok; rewrite <- H1);
+      first [exact (X1 RdIn _ H0) | exact (X1 RdOut _ H0) | exact (X1 RdIn y Hy) | exact (X1 RdOut y Hy)]. }
+  split; [destruct d; unfold rt_set_pc_lock, rt_set_buf; xproj; (split; [intros _; exact Hni|intros _; exact Hst])|].
+  split; [destruct d; unfold rt_set_pc_lock, rt_set_buf; xproj; symmetry; exact Hnf|].
+  split; [intros H; destruct d; unfold rt_set_pc_lock, rt_set_buf in H; xproj; congruence|].
+  split; [destruct d; unfold rt_set_pc_lock, rt_set_buf; xproj; destruct pc; try exact I; discriminate Hnf|].
+  split; [destruct d; exact X6|]. intros d' o Ho. apply (X7 d'). destruct d, d'; exact Ho.
+Qed.
+
+(* the handshake goroutine moves to pc (buffers as they are); ob = what the new program point says about the buffers *)
+Lemma rt_X_pc : forall t era x pc, rt_X t era x -> x_pc x <> HsIdle -> pc <> HsIdle ->
+  forall lk, lk = rt_flush_pc pc ->
+  match pc with HsFlushOut _ => x_bufin x = [] | HsFlushEnd _ => x_bufin x = [] /\ x_bufout x = [] | _ => True end ->
+  rt_X t era (rt_set_pc_lock pc lk x).
+Proof.
+  intros t era x pc (X1 & X2 & X3 & X4 & X5 & X6 & X7) Hold Hni lk Hlk Hob. unfold rt_X, rt_set_pc_lock. xproj.
+  assert (Hst : x_status x = StHandshaking) by (apply X2; exact Hold).
+  split; [intros d y Hy; apply (X1 d); destruct d; exact Hy|].
+  split; [split; [intros _; exact Hni|intros _; exact Hst]|]. split; [exact Hlk|].
+  split; [intros H; congruence|]. split; [exact Hob|]. split; [exact X6|].
+  intros d o Ho. apply (X7 d). destruct d; exact Ho.
+Qed.
+
+(* one round of a flush loop took the head of a buffer *)
+Lemma rt_X_pop : forall t era x d y rest, rt_X t era x -> rt_buf d x = y :: rest ->
+  match x_pc x with HsFlushOut _ => x_bufin x = [] | _ => True end ->
+  rt_X t era (rt_set_buf d rest x).
+Proof.
+  intros t era x d y rest (X1 & X2 & X3 & X4 & X5 & X6 & X7) Hb Hin. unfold rt_X.
+  split.
+  { intros d' y' Hy'. destruct d, d'; cbn [rt_set_buf rt_buf] in *; xproj;
+      first [apply (X1 RdIn); cbn [rt_buf]; rewrite ?Hb; first [right; exact Hy'|exact Hy']
+            |apply (X1 RdOut); cbn [rt_buf]; rewrite ?Hb; first [right; exact Hy'|exact Hy']]. }
+  split; [destruct d; exact X2|]. split; [destruct d; exact X3|].
+  split.
+  { intros H. destruct d; cbn [rt_set_buf rt_buf] in *; xproj; pose proof (X4 H) as H12; destruct H12; congruence. }
+  split.
+  { destruct d; cbn [rt_set_buf rt_buf] in *; xproj; destruct (x_pc x); try exact I; try exact Hin;
+      try (destruct X5; congruence); try congruence. }
+  split; [destruct d; exact X6|]. intros d' o Ho. apply (X7 d'). destruct d, d'; exact Ho.
+Qed.
+
+Lemma rt_X_finish : forall t era x st, rt_X t era x -> x_bufin x = [] /\ x_bufout x = [] ->
+  st <> StHandshaking -> (st = StHandshaking -> era = 0%nat) -> rt_X t era (rt_hs_finish st x).
+Proof.
+  intros t era x st (X1 & X2 & X3 & X4 & X5 & X6 & X7) [Hbi Hbo] Hst Hera. unfold rt_X, rt_hs_finish. xproj.
+  split; [intros d y Hy; apply (X1 d); destruct d; exact Hy|].
+  split; [split; [intros H; contradiction|intros H; exfalso; apply H; reflexivity]|]. split; [reflexivity|].
+  split; [intros _; split; assumption|]. split; [exact I|]. split; [exact Hera|].
+  intros d o Ho. apply (X7 d). destruct d; exact Ho.
+Qed.
+
+Lemma rt_X_standby : forall t era x, rt_X t era x -> x_status x <> StHandshaking -> rt_X t era (rt_set_status StStandby x).
+Proof.
+  intros t era x (X1 & X2 & X3 & X4 & X5 & X6 & X7) Hst. unfold rt_X, rt_set_status. xproj.
+  assert (Hpc : x_pc x = HsIdle).
+  { destruct (x_pc x) eqn:E; try reflexivity; exfalso; apply Hst; apply X2; discriminate. }
+  split; [intros d y Hy; apply (X1 d); destruct d; exact Hy|].
+  split; [split; [intros H; discriminate H|intros H; contradiction]|]. split; [exact X3|].
+  split; [intros _; exact (X4 Hst)|]. split; [exact X5|]. split; [intros H; discriminate H|].
+  intros d o Ho. apply (X7 d). destruct d; exact Ho.
+Qed.
+
+(* after a reset: tunnelRelay is nil, one more era; the relay is not handshaking, so nothing is parked *)
+Lemma rt_X_none : forall t era x, rt_X t era x -> x_status x <> StHandshaking -> rt_X None (S era) x.
+Proof.
+  intros t era x (X1 & X2 & X3 & X4 & X5 & X6 & X7) Hst. unfold rt_X.
+  destruct (X4 Hst) as [Hbi Hbo].
+  split; [intros d y Hy; destruct d; cbn [rt_buf] in Hy; rewrite ?Hbi, ?Hbo in Hy; destruct Hy|].
+  split; [exact X2|]. split; [exact X3|]. split; [exact X4|]. split; [exact X5|].
+  split; [intros H; contradiction|exact X7].
+Qed.
+
+(* the relay writes a chunk towards the server / the client: into the adopted bridge, or in-band *)
+Lemma rt_route_inv : forall s d y pc lk s',
+  rt_L (r_pairs s) -> rt_GW (r_trelay s) (r_era s) (r_pairs s) -> rt_ACC (r_apc s) (r_pairs s) ->
+  rt_route s d y pc lk = Some s' ->
+  fst y = RsRelay \/ rt_buf_ok (r_trelay s) d y ->
+  rt_X (r_trelay s) (r_era s) (rt_set_pc_lock pc lk (r_x s)) ->
+  RInv s'.
+Proof.
+  intros s d y pc lk s' HL HG HA Hstep Hy HX. unfold rt_route in Hstep.
+  destruct (r_trelay s) as [c|] eqn:Et.
+  - destruct (r_tconnected s) eqn:Etc.
+    + destruct (nth_error (r_pairs s) c) as [p|] eqn:Ep; [|discriminate Hstep].
+      destruct (p_br p) as [b|] eqn:Eb; [|discriminate Hstep].
+      destruct (rt_chan_has_room (rt_half_of d b)); [|discriminate Hstep]. injection Hstep as <-.
+      assert (Hwon : p_won p <> None).
+      { destruct HG as (G1 & _). assert (H : Some c = Some c) by reflexivity. apply (G1 c p Ep) in H. rewrite H. discriminate. }
+      unfold RInv, rt_with_x, rt_upd_pair, rt_with_pairs. rproj. rewrite Et. split; [|split; [|split]].
+      * apply rt_L_upd; [exact HL|]. intros p0 Hp0 Hl0. rewrite Ep in Hp0. injection Hp0 as <-.
+        apply rt_local_set_half; [exact Eb|reflexivity|reflexivity| | | | |exact Hl0]; unfold rt_half_push; hproj; auto.
+        -- intros H. rewrite rt_forallb_snoc, H. cbn [andb]. unfold rt_tag_ok.
+           destruct Hy as [Hy|Hy]; [rewrite Hy; destruct d; reflexivity|].
+           unfold rt_buf_ok in Hy. destruct (fst y) as [c'|c'| |g].
+           ++ destruct Hy as [-> Hy]. injection Hy as <-. apply Nat.eqb_refl.
+           ++ destruct Hy as [-> Hy]. injection Hy as <-. apply Nat.eqb_refl.
+           ++ destruct Hy.
+           ++ subst g. destruct d; reflexivity.
+        -- intros H. contradiction.
+      * apply rt_GW_upd; [exact HG|]. intros p0 _. reflexivity.
+      * exact HX.
+      * apply rt_ACC_upd; [exact HA|]. intros p0 _ H. exact H.
+    + injection Hstep as <-. unfold RInv, rt_with_x. rproj. rewrite Et.
+      split; [exact HL|]. split; [exact HG|]. split; [|exact HA].
+      apply rt_X_add_out; [exact HX|]. cbn [fst snd]. intros _. reflexivity.
+  - assert (Hr : s' = rt_with_x s (rt_add_out d (y, r_tconnected s) (rt_set_pc_lock pc lk (r_x s)))).
+    { destruct (r_tconnected s); injection Hstep as <-; reflexivity. }
+    subst s'. unfold RInv, rt_with_x. rproj. rewrite Et.
+    split; [exact HL|]. split; [exact HG|]. split; [|exact HA].
+    apply rt_X_add_out; [exact HX|]. cbn [fst snd]. intros Hts.
+    destruct Hy as [Hy|Hy]; [rewrite Hy in Hts; discriminate Hts|].
+    unfold rt_buf_ok in Hy. destruct (fst y); try discriminate Hts; destruct Hy as [_ Hy]; discriminate Hy.
+Qed.
+
+Lemma rt_step_inv : forall s l s', RInv s -> rt_step ch1 sh4 ch2 sh3 s l = Some s' -> RInv s'.
+Proof.
+  intros s l s' Hinv Hstep.
+  destruct l as [script|c|c|c| | |c dial fail|c d|c d n|c d|c d|c d|v|d bs|k ok tun conf|bs| ]; unfold rt_step in Hstep.
+  - (* RLConnect *)
+    injection Hstep as <-. destruct Hinv as (HL & (G1 & G2 & G3 & G4) & HP & HA).
+    unfold RInv, rt_with_pairs. rproj.
+    assert (Hnew : forall c p, nth_error (r_pairs s ++ [rt_new_pair script (if r_lis s then RtPending else RtRefused)]) c = Some p ->
+              nth_error (r_pairs s) c = Some p \/ (c = length (r_pairs s) /\ p_won p = None /\ rt_local c p)).
+    { intros c p Hn. apply nth_error_app_last in Hn. destruct Hn as [Hn|[-> ->]]; [left; exact Hn|right].
+      split; [reflexivity|]. split; [reflexivity|]. unfold rt_local, rt_new_pair. pproj.
+      destruct (r_lis s); unf; pproj; eproj; splits; reflexivity. }
+    split; [|split; [|split]].
+    + intros c p Hn. destruct (Hnew c p Hn) as [H|(_ & _ & H)]; [exact (HL c p H)|exact H].
+    + unfold rt_GW. split; [|split; [|split]].
+      * intros c p Hn. destruct (Hnew c p Hn) as [H|(-> & Hw & _)]; [exact (G1 c p H)|].
+        rewrite Hw. split; intros H; [|discriminate H]. apply G4 in H. lia.
+      * intros c p e Hn Hw. destruct (Hnew c p Hn) as [H|(_ & Hw' & _)]; [exact (G2 c p e H Hw)|congruence].
+      * intros c1 c2 p1 p2 e H1 H2 W1 W2.
+        destruct (Hnew c1 p1 H1) as [H1'|(_ & Hw1 & _)]; [|congruence].
+        destruct (Hnew c2 p2 H2) as [H2'|(_ & Hw2 & _)]; [|congruence].
+        exact (G3 c1 c2 p1 p2 e H1' H2' W1 W2).
+      * intros c H. rewrite app_length. apply G4 in H. lia.
+    + exact HP.
+    + intros c H. destruct (HA c H) as (p & Hn & Hpc). exists p. split; [|exact Hpc].
+      rewrite nth_error_app1; [exact Hn|]. eapply nth_error_lt. exact Hn.
+  - (* RLPeerC *)
+    destruct (nth_error (r_pairs s) c) as [p|] eqn:Ep; [|discriminate Hstep].
+    destruct (rt_end_peer (p_cli p)) as [e|] eqn:Ee; [|discriminate Hstep]. injection Hstep as <-.
+    destruct (rt_end_peer_same _ _ Ee) as [Htx Hcl].
+    apply RInv_upd; [exact Hinv| | |].
+    + intros p0 Hp0 Hl0. rewrite Ep in Hp0. injection Hp0 as <-. apply rt_local_set_cli; [exact Htx|rewrite Hcl; auto|exact Hl0].
+    + intros p0 _. reflexivity.
+    + intros p0 _ H. exact H.
+  - (* RLPeerS *)
+    destruct (nth_error (r_pairs s) c) as [p|] eqn:Ep; [|discriminate Hstep].
+    destruct (p_srv p) as [e0|] eqn:Es; [|discriminate Hstep].
+    destruct (rt_end_peer e0) as [e|] eqn:Ee; [|discriminate Hstep]. injection Hstep as <-.
+    destruct (rt_end_peer_same _ _ Ee) as [Htx Hcl].
+    apply RInv_upd; [exact Hinv| | |].
+    + intros p0 Hp0 Hl0. rewrite Ep in Hp0. injection Hp0 as <-. apply (rt_local_set_srv c p e0); [exact Es|exact Htx|rewrite Hcl; auto|exact Hl0].
+    + intros p0 _. reflexivity.
+    + intros p0 _ H. exact H.
+  - (* RLAccept *)
+    destruct (r_apc s) eqn:Ea; try discriminate Hstep. destruct (r_lis s); try discriminate Hstep.
+    destruct (nth_error (r_pairs s) c) as [p|] eqn:Ep; [|discriminate Hstep].
+    destruct (p_pc p) eqn:Epc; try discriminate Hstep. injection Hstep as <-.
+    destruct Hinv as (HL & HG & HP & HA). unfold RInv. rproj. split; [|split; [|split]].
+    + apply rt_L_upd; [exact HL|]. intros p0 Hp0 Hl0. rewrite Ep in Hp0. injection Hp0 as <-.
+      unfold rt_local, rt_set_pc in *. pproj. rewrite Epc in Hl0. exact Hl0.
+    + apply rt_GW_upd; [exact HG|]. intros p0 _. reflexivity.
+    + exact HP.
+    + intros c0 H. injection H as <-. rewrite nth_upd_same, Ep. cbn [option_map]. eexists. split; reflexivity.
+  - (* RLAcceptErr *)
+    destruct (r_apc s) eqn:Ea; try discriminate Hstep. destruct (r_lis s); try discriminate Hstep.
+    injection Hstep as <-. destruct Hinv as (HL & HG & HP & HA). unfold RInv. rproj.
+    split; [exact HL|]. split; [exact HG|]. split; [exact HP|]. intros c0 H. discriminate H.
+  - (* RLCheck *)
+    destruct (r_apc s) as [|c|] eqn:Ea; try discriminate Hstep.
+    destruct Hinv as (HL & HG & HP & HA). destruct (HA c Ea) as (p & Ep & Epc).
+    destruct (r_trelay s) as [t|] eqn:Et; injection Hstep as <-; unfold RInv; rproj; (split; [|split; [|split]]).
+    + apply rt_L_upd; [exact HL|]. intros p0 Hp0 Hl0. rewrite Ep in Hp0. injection Hp0 as <-.
+      unfold rt_local in *. rewrite Epc in Hl0. setters. pproj. unf. pproj. dex. fin p.
+    + apply rt_GW_upd; [exact HG|]. intros p0 _. setters. destruct (p_srv p0); reflexivity.
+    + exact HP.
+    + intros c0 H. discriminate H.
+    + apply rt_L_upd; [exact HL|]. intros p0 Hp0 Hl0. rewrite Ep in Hp0. injection Hp0 as <-.
+      unfold rt_local, rt_set_pc in *. pproj. rewrite Epc in Hl0. exact Hl0.
+    + apply rt_GW_upd; [exact HG|]. intros p0 _. reflexivity.
+    + exact HP.
+    + intros c0 H. discriminate H.
+  - (* RLHandler *)
+    destruct (nth_error (r_pairs s) c) as [p|] eqn:Ep; [|discriminate Hstep].
+    exact (rt_handler_inv s c p dial fail s' Hinv Ep Hstep).
+  - (* RLWriter *)
+    destruct (nth_error (r_pairs s) c) as [p|] eqn:Ep; [|discriminate Hstep].
+    destruct (p_br p) as [b|] eqn:Eb; [|discriminate Hstep].
+    destruct (rt_dst_end d p) as [e|] eqn:Ee; [|discriminate Hstep].
+    destruct (h_writer (rt_half_of d b)) eqn:Ew; [|discriminate Hstep].
+    destruct (h_chan (rt_half_of d b)) as [|x rest] eqn:Ech.
+    + destruct (h_chan_closed (rt_half_of d b)) eqn:Ecl; [|discriminate Hstep]. injection Hstep as <-.
+      apply RInv_upd; [exact Hinv| | |].
+      * intros p0 Hp0 Hl0. rewrite Ep in Hp0. injection Hp0 as <-. apply rt_local_writer_exit; assumption.
+      * intros p0 _. destruct d; cbn [rt_set_dst_end]; reflexivity.
+      * intros p0 _ H. destruct d; cbn [rt_set_dst_end]; exact H.
+    + destruct (e_closed e); injection Hstep as <-; (apply RInv_upd; [exact Hinv| | |]).
+      * intros p0 Hp0 Hl0. rewrite Ep in Hp0. injection Hp0 as <-.
+        apply rt_local_set_half; [exact Eb|reflexivity|try reflexivity| | | | |exact Hl0]; hproj; auto.
+        -- rewrite Ech. cbn [forallb]. intros H. apply andb_true_iff in H. exact (proj2 H).
+        -- intros _ (H & _). rewrite Ech in H. discriminate H.
+      * intros p0 _. reflexivity.
+      * intros p0 _ H. exact H.
+      * intros p0 Hp0 Hl0. rewrite Ep in Hp0. injection Hp0 as <-. apply rt_local_writer_write; assumption.
+      * intros p0 _. destruct d; cbn [rt_set_dst_end]; reflexivity.
+      * intros p0 _ H. destruct d; cbn [rt_set_dst_end]; exact H.
+  - (* RLPump *)
+    destruct (nth_error (r_pairs s) c) as [p|] eqn:Ep; [|discriminate Hstep].
+    destruct (p_br p) as [b|] eqn:Eb; [|discriminate Hstep].
+    destruct (rt_src_end d p) as [e|] eqn:Ee; [|discriminate Hstep].
+    destruct (h_pump (rt_half_of d b)) eqn:Epm; try discriminate Hstep.
+    match type of Hstep with (if ?x then _ else _) = _ => destruct x end; [|discriminate Hstep].
+    destruct (b_relay b && rt_handshaking s) eqn:Epark.
+    + destruct (x_lock (r_x s)) eqn:Elk; [discriminate Hstep|]. injection Hstep as <-.
+      apply andb_true_iff in Epark. destruct Epark as [Erel Ehs].
+      destruct Hinv as (HL & HG & HP & HA). unfold RInv. rproj. split; [|split; [|split]].
+      * apply rt_L_upd; [exact HL|]. intros p0 Hp0 Hl0. rewrite Ep in Hp0. injection Hp0 as <-.
+        apply rt_local_set_src_drop; assumption.
+      * apply rt_GW_upd; [exact HG|]. intros p0 _. destruct d; reflexivity.
+      * assert (Hwon : p_won p <> None).
+        { apply (rt_local_used_won c p b d (HL c p Ep) Eb). right. right. right. exact Erel. }
+        assert (Ht : r_trelay s = Some c).
+        { destruct HP as (_ & _ & _ & _ & _ & X6 & _). unfold rt_handshaking in Ehs.
+          destruct (x_status (r_x s)) eqn:Est; try discriminate Ehs. specialize (X6 eq_refl).
+          destruct HG as (G1 & G2 & _). destruct (p_won p) as [e0|] eqn:Ew; [|contradiction].
+          pose proof (G2 c p e0 Ep Ew) as Hle. apply (G1 c p Ep). rewrite Ew. f_equal. lia. }
+        apply rt_X_park; [exact HP|exact Elk|unfold rt_handshaking in Ehs; destruct (x_status (r_x s)); try discriminate Ehs; reflexivity|].
+        unfold rt_buf_ok. destruct d; cbn [fst rt_tag]; split; auto.
+      * apply rt_ACC_upd; [exact HA|]. intros p0 _ H. destruct d; exact H.
+    + destruct (rt_chan_has_room (rt_half_of d b)); [|discriminate Hstep]. injection Hstep as <-.
+      apply RInv_upd; [exact Hinv| | |].
+      * intros p0 Hp0 Hl0. rewrite Ep in Hp0. injection Hp0 as <-. apply rt_local_set_src_drop.
+        { destruct d; cbn [rt_src_end] in *; unfold rt_set_br; pproj; exact Ee. }
+        apply rt_local_set_half; [exact Eb|reflexivity|try reflexivity| | | | |exact Hl0]; unfold rt_half_push; hproj; auto.
+        -- intros H. rewrite rt_forallb_snoc, H, rt_tag_ok_own. reflexivity.
+        -- intros _ (_ & _ & H). congruence.
+      * intros p0 _. destruct d; reflexivity.
+      * intros p0 _ H. destruct d; exact H.
+  - (* RLPumpEof *)
+    destruct (nth_error (r_pairs s) c) as [p|] eqn:Ep; [|discriminate Hstep].
+    destruct (p_br p) as [b|] eqn:Eb; [|discriminate Hstep].
+    destruct (rt_src_end d p) as [e|] eqn:Ee; [|discriminate Hstep].
+    destruct (h_pump (rt_half_of d b)) eqn:Epm; try discriminate Hstep.
+    destruct (e_rx e); [|discriminate Hstep].
+    match type of Hstep with (if ?x then _ else _) = _ => destruct x end; [|discriminate Hstep].
+    injection Hstep as <-. apply RInv_upd; [exact Hinv| | |].
+    + intros p0 Hp0 Hl0. rewrite Ep in Hp0. injection Hp0 as <-.
+      apply rt_local_set_half; [exact Eb|reflexivity|try reflexivity| | | | |exact Hl0]; unfold rt_half_set_pump; hproj; auto.
+      * intros H. congruence.
+      * intros _ (_ & _ & H). congruence.
+    + intros p0 _. reflexivity.
+    + intros p0 _ H. exact H.
+  - (* RLPumpExit *)
+    destruct (nth_error (r_pairs s) c) as [p|] eqn:Ep; [|discriminate Hstep].
+    destruct (p_br p) as [b|] eqn:Eb; [|discriminate Hstep].
+    destruct (h_pump (rt_half_of d b)) eqn:Epm; try discriminate Hstep.
+    destruct (b_relay b); [discriminate Hstep|].
+    injection Hstep as <-. apply RInv_upd; [exact Hinv| | |].
+    + intros p0 Hp0 Hl0. rewrite Ep in Hp0. injection Hp0 as <-.
+      apply rt_local_set_half; [exact Eb|reflexivity|try reflexivity| | | | |exact Hl0];
+        unfold rt_half_set_pump, rt_half_close_chan; hproj; auto.
+      * intros H. congruence.
+      * intros _ (_ & _ & H). congruence.
+    + intros p0 _. reflexivity.
+    + intros p0 _ H. exact H.
+  - (* RLPumpSpin *)
+    destruct (nth_error (r_pairs s) c) as [p|] eqn:Ep; [|discriminate Hstep].
+    destruct (p_br p) as [b|] eqn:Eb; [|discriminate Hstep].
+    destruct (rt_src_end d p) as [e|] eqn:Ee; [|discriminate Hstep].
+    destruct (h_pump (rt_half_of d b)); try discriminate Hstep.
+    destruct (e_closed e); [|discriminate Hstep]. injection Hstep as <-. exact Hinv.
+  - (* RLSetConnector *)
+    injection Hstep as <-. exact Hinv.
+  - (* RLInband *)
+    destruct bs as [|b0 bs]; [discriminate Hstep|].
+    destruct Hinv as (HL & HG & HP & HA).
+    destruct (rt_handshaking s) eqn:Ehs.
+    + destruct (x_lock (r_x s)) eqn:Elk; [discriminate Hstep|].
+      destruct (r_tconnected s) eqn:Etc; injection Hstep as <-; unfold RInv, rt_with_x; rproj;
+        (split; [exact HL|]; split; [exact HG|]; split; [|exact HA]).
+      * apply rt_X_add_out; [exact HP|]. cbn [fst snd rt_is_tunnel_src]. discriminate.
+      * apply rt_X_park; [exact HP|exact Elk| |reflexivity].
+        unfold rt_handshaking in Ehs. destruct (x_status (r_x s)); try discriminate Ehs; reflexivity.
+    + injection Hstep as <-. unfold RInv, rt_with_x. rproj.
+      split; [exact HL|]. split; [exact HG|]. split; [|exact HA].
+      apply rt_X_add_out; [exact HP|]. cbn [fst snd rt_is_tunnel_src]. discriminate.
+  - (* RLHsRead *)
+    destruct Hinv as (HL & HG & HP & HA).
+    destruct (x_pc (r_x s)) eqn:Epc; try discriminate Hstep;
+      (match type of Hstep with (if ?x then _ else _) = _ => destruct x end; [|discriminate Hstep]);
+      injection Hstep as <-; unfold RInv, rt_with_x; rproj;
+      (split; [exact HL|]; split; [exact HG|]; split; [|exact HA]).
+    + apply (rt_X_read _ _ _ RdIn); [exact HP|right; right; left; exact Epc|destruct ok; discriminate|destruct ok; reflexivity].
+    + apply (rt_X_read _ _ _ RdOut); [exact HP|right; right; right; exact Epc|destruct ok; discriminate|destruct ok; reflexivity].
+  - (* RLHs *)
+    pose proof Hinv as (HL & HG & HP & HA).
+    destruct (x_pc (r_x s)) as [ |tn cf|cf| | | | |cf|cf|cf| ] eqn:Epc; try discriminate Hstep.
+    + (* HsStore *)
+      injection Hstep as <-. unfold RInv. rproj. split; [exact HL|]. split; [exact HG|]. split; [|exact HA].
+      apply rt_X_pc; [exact HP|rewrite Epc; discriminate|discriminate|reflexivity|exact I].
+    + (* HsSendAct *)
+      apply (rt_route_inv s RdIn (RsRelay, bs) _ _ s' HL HG HA Hstep); [left; reflexivity|].
+      destruct cf; (apply rt_X_pc; [exact HP|rewrite Epc; discriminate|discriminate|reflexivity|exact I]).
+    + (* HsSendCfg *)
+      apply (rt_route_inv s RdOut (RsRelay, bs) _ _ s' HL HG HA Hstep); [left; reflexivity|].
+      apply rt_X_pc; [exact HP|rewrite Epc; discriminate|discriminate|reflexivity|exact I].
+    + (* HsErr1 *)
+      apply (rt_route_inv s RdOut (RsRelay, bs) _ _ s' HL HG HA Hstep); [left; reflexivity|].
+      apply rt_X_pc; [exact HP|rewrite Epc; discriminate|discriminate|reflexivity|exact I].
+    + (* HsErr2 *)
+      apply (rt_route_inv s RdIn (RsRelay, bs) _ _ s' HL HG HA Hstep); [left; reflexivity|].
+      apply rt_X_pc; [exact HP|rewrite Epc; discriminate|discriminate|reflexivity|exact I].
+    + (* HsFlushIn *)
+      destruct (x_bufin (r_x s)) as [|y rest] eqn:Eb.
+      * injection Hstep as <-. unfold RInv, rt_with_x. rproj. split; [exact HL|]. split; [exact HG|]. split; [|exact HA].
+        apply rt_X_pc; [exact HP|rewrite Epc; discriminate|discriminate|reflexivity|exact Eb].
+      * assert (Hy : rt_buf_ok (r_trelay s) RdIn y).
+        { destruct HP as (X1 & _). apply (X1 RdIn). cbn [rt_buf]. rewrite Eb. left. reflexivity. }
+        apply (rt_route_inv (rt_with_x s (rt_set_buf RdIn rest (r_x s))) RdIn y (HsFlushIn cf) true s'); unfold rt_with_x; rproj;
+          try assumption; [right; exact Hy|].
+        apply rt_X_pc; [apply (rt_X_pop _ _ _ RdIn y rest); [exact HP|exact Eb|rewrite Epc; exact I]
+                       |cbn [rt_set_buf]; xproj; rewrite Epc; discriminate|discriminate|reflexivity
+                       |exact I].
+    + (* HsFlushOut *)
+      assert (Hbi : x_bufin (r_x s) = []).
+      { destruct HP as (_ & _ & _ & _ & X5 & _). rewrite Epc in X5. exact X5. }
+      destruct (x_bufout (r_x s)) as [|y rest] eqn:Eb.
+      * injection Hstep as <-. unfold RInv, rt_with_x. rproj. split; [exact HL|]. split; [exact HG|]. split; [|exact HA].
+        apply rt_X_pc; [exact HP|rewrite Epc; discriminate|discriminate|reflexivity|split; assumption].
+      * assert (Hy : rt_buf_ok (r_trelay s) RdOut y).
+        { destruct HP as (X1 & _). apply (X1 RdOut). cbn [rt_buf]. rewrite Eb. left. reflexivity. }
+        apply (rt_route_inv (rt_with_x s (rt_set_buf RdOut rest (r_x s))) RdOut y (HsFlushOut cf) true s'); unfold rt_with_x; rproj;
+          try assumption; [right; exact Hy|].
+        apply rt_X_pc; [apply (rt_X_pop _ _ _ RdOut y rest); [exact HP|exact Eb|rewrite Epc; exact Hbi]
+                       |cbn [rt_set_buf]; xproj; rewrite Epc; discriminate|discriminate|reflexivity
+                       |cbn [rt_set_buf]; xproj; exact Hbi].
+    + (* HsFlushEnd *)
+      assert (Hbe : x_bufin (r_x s) = [] /\ x_bufout (r_x s) = []).
+      { destruct HP as (_ & _ & _ & _ & X5 & _). rewrite Epc in X5. exact X5. }
+      destruct cf; injection Hstep as <-.
+      * unfold RInv, rt_with_x. rproj. split; [exact HL|]. split; [exact HG|]. split; [|exact HA].
+        apply rt_X_finish; [exact HP|exact Hbe|discriminate|intros H; discriminate H].
+      * apply rt_reset_inv; [exact Hinv|]. apply (rt_X_none (r_trelay s)); [|cbn; discriminate].
+        apply rt_X_finish; [exact HP|exact Hbe|discriminate|intros H; discriminate H].
+  - (* RLReset *)
+    destruct (x_status (r_x s)) eqn:Est; try discriminate Hstep. injection Hstep as <-.
+    apply rt_reset_inv; [exact Hinv|]. destruct Hinv as (_ & _ & HP & _). apply (rt_X_none (r_trelay s)); [|cbn; discriminate].
+    apply rt_X_standby; [exact HP|rewrite Est; discriminate].
+Qed.
+
+Lemma rt_run_inv : forall ls s s', RInv s -> rt_run ch1 sh4 ch2 sh3 s ls = Some s' -> RInv s'.
+Proof.
+  induction ls as [|l ls IH]; intros s s' Hinv Hrun; cbn [rt_run] in Hrun.
+  - injection Hrun as <-. exact Hinv.
+  - destruct (rt_step ch1 sh4 ch2 sh3 s l) as [s1|] eqn:E; [|discriminate Hrun].
+    apply (IH s1 s'); [|exact Hrun]. exact (rt_step_inv s l s1 Hinv E).
+Qed.
+
+Lemma rt_reach_inv : forall s, rt_reach ch1 sh4 ch2 sh3 s -> RInv s.
+Proof. intros s [ls H]. exact (rt_run_inv ls rt_init s RInv_init H). Qed.
+
 (* ------------------------------------------------------------------------------------ *)
 (* the theorems *)
 
@@ -799,85 +1039,39 @@ Proof.
   apply nth_error_None in E. lia.
 Qed.
 
-(* the cell changes only by a reset *)
-Lemma rt_step_trelay_stable : forall s l s' c, rt_step ch1 sh4 ch2 sh3 s l = Some s' -> rt_is_reset l = false ->
-  r_trelay s = Some c -> r_trelay s' = Some c.
+(* the cell changes only by a compare-and-swap from nil, or by a reset, which starts a new era *)
+Lemma rt_step_cell : forall s l s', rt_step ch1 sh4 ch2 sh3 s l = Some s' ->
+  (r_era s' = r_era s /\ (r_trelay s' = r_trelay s \/ r_trelay s = None)) \/
+  (r_era s' = S (r_era s) /\ r_trelay s' = None).
 Proof.
-  intros s l s' c Hstep Hnr Ht.
-  destruct l as [script|c0|c0|c0| | |c0 dial fail|c0 d|c0 d n park|c0 d|c0 d|c0 d|v|v|d bs| ]; unfold rt_step in Hstep;
-    try discriminate Hnr.
-  - injection Hstep as <-. (first [exact Ht|reflexivity]).
-  - destruct (nth_error (r_pairs s) c0) as [p|]; [|discriminate Hstep].
-    destruct (rt_end_peer (p_cli p)); [|discriminate Hstep]. injection Hstep as <-. (first [exact Ht|reflexivity]).
-  - destruct (nth_error (r_pairs s) c0) as [p|]; [|discriminate Hstep].
-    destruct (p_srv p) as [e0|]; [|discriminate Hstep].
-    destruct (rt_end_peer e0); [|discriminate Hstep]. injection Hstep as <-. (first [exact Ht|reflexivity]).
-  - destruct (r_apc s); try discriminate Hstep. destruct (r_lis s); try discriminate Hstep.
-    destruct (nth_error (r_pairs s) c0) as [p|]; [|discriminate Hstep].
-    destruct (p_pc p); try discriminate Hstep. injection Hstep as <-. (first [exact Ht|reflexivity]).
-  - destruct (r_apc s); try discriminate Hstep. destruct (r_lis s); try discriminate Hstep.
-    injection Hstep as <-. (first [exact Ht|reflexivity]).
-  - destruct (r_apc s); try discriminate Hstep. rewrite Ht in Hstep. injection Hstep as <-. (first [exact Ht|reflexivity]).
-  - destruct (nth_error (r_pairs s) c0) as [p|]; [|discriminate Hstep]. unfold rt_handler in Hstep.
-    destruct (p_pc p) as [ | | | | |r| | | |r| | | | | | | | | |o]; try discriminate Hstep.
-    + destruct (r_connector s); injection Hstep as <-; (first [exact Ht|reflexivity]).
-    + destruct (e_rx (p_cli p)); [destruct (e_eof (p_cli p)); [|discriminate Hstep]|]; injection Hstep as <-; (first [exact Ht|reflexivity]).
-    + destruct r as [got|]; [destruct (hello_matches got ch1)|]; injection Hstep as <-; (first [exact Ht|reflexivity]).
-    + destruct dial; injection Hstep as <-; (first [exact Ht|reflexivity]).
-    + destruct (p_srv p) as [e|]; [|discriminate Hstep].
-      destruct fail; [destruct (e_eof e); [|discriminate Hstep]|]; injection Hstep as <-; (first [exact Ht|reflexivity]).
-    + destruct (p_srv p) as [e|]; [|discriminate Hstep].
-      destruct (e_rx e); [destruct (e_eof e); [|discriminate Hstep]|]; injection Hstep as <-; (first [exact Ht|reflexivity]).
-    + destruct r as [got|]; [destruct (hello_matches got sh3)|]; injection Hstep as <-; (first [exact Ht|reflexivity]).
-    + destruct fail; [destruct (e_eof (p_cli p)); [|discriminate Hstep]|]; injection Hstep as <-; (first [exact Ht|reflexivity]).
-    + injection Hstep as <-; (first [exact Ht|reflexivity]).
-    + rewrite Ht in Hstep. injection Hstep as <-; (first [exact Ht|reflexivity]).
-    + destruct (p_br p); [|discriminate Hstep]. injection Hstep as <-; (first [exact Ht|reflexivity]).
-    + destruct (p_br p); [|discriminate Hstep]. injection Hstep as <-; (first [exact Ht|reflexivity]).
-    + destruct (p_br p); [|discriminate Hstep]. injection Hstep as <-; (first [exact Ht|reflexivity]).
-    + injection Hstep as <-; (first [exact Ht|reflexivity]).
-    + destruct (p_br p); [|discriminate Hstep]. injection Hstep as <-; (first [exact Ht|reflexivity]).
-    + destruct (p_br p); [|discriminate Hstep]. injection Hstep as <-; (first [exact Ht|reflexivity]).
-  - destruct (nth_error (r_pairs s) c0) as [p|]; [|discriminate Hstep].
-    destruct (p_br p) as [b|]; [|discriminate Hstep]. destruct (rt_dst_end d p) as [e|]; [|discriminate Hstep].
-    destruct (h_writer (rt_half_of d b)); [|discriminate Hstep].
-    destruct (h_chan (rt_half_of d b)); [destruct (h_chan_closed (rt_half_of d b)); [|discriminate Hstep]|destruct (e_closed e)];
-      injection Hstep as <-; (first [exact Ht|reflexivity]).
-  - destruct (nth_error (r_pairs s) c0) as [p|]; [|discriminate Hstep].
-    destruct (p_br p) as [b|]; [|discriminate Hstep]. destruct (rt_src_end d p) as [e|]; [|discriminate Hstep].
-    destruct (h_pump (rt_half_of d b)); try discriminate Hstep.
-    match type of Hstep with (if ?x then _ else _) = _ => destruct x end; [|discriminate Hstep].
-    destruct park; [destruct (b_relay b)|destruct (rt_chan_has_room (rt_half_of d b))]; try discriminate Hstep;
-      injection Hstep as <-; (first [exact Ht|reflexivity]).
-  - destruct (nth_error (r_pairs s) c0) as [p|]; [|discriminate Hstep].
-    destruct (p_br p) as [b|]; [|discriminate Hstep]. destruct (rt_src_end d p) as [e|]; [|discriminate Hstep].
-    destruct (h_pump (rt_half_of d b)); try discriminate Hstep. destruct (e_rx e); [|discriminate Hstep].
-    match type of Hstep with (if ?x then _ else _) = _ => destruct x end; [|discriminate Hstep].
-    injection Hstep as <-; (first [exact Ht|reflexivity]).
-  - destruct (nth_error (r_pairs s) c0) as [p|]; [|discriminate Hstep].
-    destruct (p_br p) as [b|]; [|discriminate Hstep].
-    destruct (h_pump (rt_half_of d b)); try discriminate Hstep. destruct (b_relay b); [discriminate Hstep|].
-    injection Hstep as <-; (first [exact Ht|reflexivity]).
-  - destruct (nth_error (r_pairs s) c0) as [p|]; [|discriminate Hstep].
-    destruct (p_br p) as [b|]; [|discriminate Hstep]. destruct (rt_src_end d p) as [e|]; [|discriminate Hstep].
-    destruct (h_pump (rt_half_of d b)); try discriminate Hstep. destruct (e_closed e); [|discriminate Hstep].
-    injection Hstep as <-; (first [exact Ht|reflexivity]).
-  - injection Hstep as <-; (first [exact Ht|reflexivity]).
-  - injection Hstep as <-; (first [exact Ht|reflexivity]).
-  - rewrite Ht in Hstep. destruct (r_tconnected s); [|discriminate Hstep].
-    destruct (nth_error (r_pairs s) c) as [p|]; [|discriminate Hstep].
-    destruct (p_br p) as [b|]; [|discriminate Hstep].
-    destruct (rt_chan_has_room (rt_half_of d b)); [|discriminate Hstep]. injection Hstep as <-; (first [exact Ht|reflexivity]).
+  intros s l s' Hstep.
+  destruct l; unfold rt_step, rt_handler, rt_route, rt_reset, rt_with_x, rt_upd_pair, rt_with_pairs in Hstep;
+    repeat match type of Hstep with
+           | match ?x with _ => _ end = _ => destruct x eqn:?; try discriminate Hstep
+           | (if ?x then _ else _) = _ => destruct x eqn:?; try discriminate Hstep
+           end;
+    injection Hstep as <-; rproj;
+    first [ left; split; [reflexivity|first [left; reflexivity | right; assumption | right; reflexivity | left; congruence]]
+          | right; split; reflexivity ].
+Qed.
+
+Lemma rt_run_era_mono : forall ls s s', rt_run ch1 sh4 ch2 sh3 s ls = Some s' -> (r_era s <= r_era s')%nat.
+Proof.
+  induction ls as [|l ls IH]; intros s s' Hrun; cbn [rt_run] in Hrun.
+  - injection Hrun as <-. lia.
+  - destruct (rt_step ch1 sh4 ch2 sh3 s l) as [s1|] eqn:E; [|discriminate Hrun].
+    specialize (IH s1 s' Hrun). destruct (rt_step_cell s l s1 E) as [[He _]|[He _]]; lia.
 Qed.
 
 Lemma rt_adoption_stable : forall ls s s' c, rt_run ch1 sh4 ch2 sh3 s ls = Some s' ->
-  forallb (fun l => negb (rt_is_reset l)) ls = true -> r_trelay s = Some c -> r_trelay s' = Some c.
+  r_era s' = r_era s -> r_trelay s = Some c -> r_trelay s' = Some c.
 Proof.
-  induction ls as [|l ls IH]; intros s s' c Hrun Hnr Ht; cbn [rt_run forallb] in *.
+  induction ls as [|l ls IH]; intros s s' c Hrun He Ht; cbn [rt_run] in Hrun.
   - injection Hrun as <-. exact Ht.
   - destruct (rt_step ch1 sh4 ch2 sh3 s l) as [s1|] eqn:E; [|discriminate Hrun].
-    apply andb_true_iff in Hnr. destruct Hnr as [Hl Hls]. apply negb_true_iff in Hl.
-    apply (IH s1 s' c Hrun Hls). exact (rt_step_trelay_stable s l s1 c E Hl Ht).
+    pose proof (rt_run_era_mono ls s1 s' Hrun) as Hm.
+    destruct (rt_step_cell s l s1 E) as [[He1 Hc]|[He1 _]]; [|lia].
+    apply (IH s1 s' c Hrun); [lia|]. destruct Hc as [Hc|Hc]; congruence.
 Qed.
 
 (* a client that presented anything but the hello for (id, relay port) — or nothing yet: not one byte was
@@ -947,12 +1141,14 @@ Proof.
 Qed.
 
 (* bytes cross a bridge only between the pair it belongs to: whatever is in a channel of pair c, or was
-   written by one of its writers, was read from pair c's OWN other connection by pair c's own pump, or was
-   sent by the relay itself; and only a pair that won the swap has ever had anything in its channels *)
+   written by one of its writers, was read from pair c's OWN other connection by pair c's own pump (directly, or
+   parked in the relay's handshake buffer and flushed), or was written by the relay itself, or was read in-band
+   while tunnelConnected was still false (parked, flushed); and only a pair that won the swap has ever had
+   anything in its channels *)
 Lemma rt_bridge_bytes : forall s c p b d x, rt_reach ch1 sh4 ch2 sh3 s ->
   nth_error (r_pairs s) c = Some p -> p_br p = Some b ->
   In x (h_chan (rt_half_of d b)) \/ In x (h_log (rt_half_of d b)) ->
-  (fst x = rt_tag d c \/ fst x = RsRelay) /\ p_won p <> None.
+  (fst x = rt_tag d c \/ fst x = RsRelay \/ fst x = RsInband false) /\ p_won p <> None.
 Proof.
   intros s c p b d x Hr Hn Hb Hin. apply rt_reach_inv in Hr. destruct Hr as (HL & _).
   pose proof (HL c p Hn) as Hl. pose proof (rt_local_br c p b Hl Hb) as (_ & _ & (_ & Hi1 & Hi2 & _) & (_ & Ho1 & Ho2 & _)).
@@ -961,11 +1157,66 @@ Proof.
     { destruct d; cbn [rt_half_of] in Hin; destruct Hin as [H|H];
         first [exact (proj1 (forallb_forall _ _) Hi1 x H) | exact (proj1 (forallb_forall _ _) Hi2 x H)
               | exact (proj1 (forallb_forall _ _) Ho1 x H) | exact (proj1 (forallb_forall _ _) Ho2 x H)]. }
-    unfold rt_tag_ok in Hok. destruct x as [[c'|c'|] bs]; destruct d; cbn [fst rt_tag] in *; try discriminate Hok;
-      try (right; reflexivity); apply Nat.eqb_eq in Hok; subst c'; left; reflexivity.
+    unfold rt_tag_ok in Hok. destruct x as [[c'|c'| |[|]] bs]; destruct d; cbn [fst rt_tag negb] in *; try discriminate Hok;
+      try (right; left; reflexivity); try (right; right; reflexivity); apply Nat.eqb_eq in Hok; subst c'; left; reflexivity.
   - apply (rt_local_used_won c p b d Hl Hb). destruct Hin as [H|H].
     + right. left. intros E. rewrite E in H. destruct H.
     + right. right. left. intros E. rewrite E in H. destruct H.
+Qed.
+
+(* ONCE THE TUNNEL IS AGREED, IN-BAND BYTES STAY OUT OF IT — also at the relay, in every phase of its handshake:
+   nothing the relay read in-band while tunnelConnected was set is ever in a handshake buffer, in a channel of a
+   bridge, or written to a tunnel connection *)
+Lemma rt_inband_agreed_never_in_tunnel : forall s, rt_reach ch1 sh4 ch2 sh3 s ->
+  (forall d bs, ~ In (RsInband true, bs) (rt_buf d (r_x s))) /\
+  (forall c p b d bs, nth_error (r_pairs s) c = Some p -> p_br p = Some b ->
+     ~ In (RsInband true, bs) (h_chan (rt_half_of d b)) /\ ~ In (RsInband true, bs) (h_log (rt_half_of d b))).
+Proof.
+  intros s Hr. split.
+  - intros d bs Hin. apply rt_reach_inv in Hr. destruct Hr as (_ & _ & (X1 & _) & _).
+    specialize (X1 d _ Hin). unfold rt_buf_ok in X1. cbn [fst] in X1. discriminate X1.
+  - intros c p b d bs Hn Hb.
+    assert (H : forall x, In x (h_chan (rt_half_of d b)) \/ In x (h_log (rt_half_of d b)) -> fst x <> RsInband true).
+    { intros x Hx E. destruct (rt_bridge_bytes s c p b d x Hr Hn Hb Hx) as ([H|[H|H]] & _); rewrite E in H;
+        try discriminate H. destruct d; discriminate H. }
+    split; intros Hin; [apply (H _ (or_introl Hin))|apply (H _ (or_intror Hin))]; reflexivity.
+Qed.
+
+(* … and the other way round: whatever a pump read from a TUNNEL connection is written in-band only while
+   tunnelConnected is false (a handshake that did not agree on the tunnel hands the parked bytes back in-band) *)
+Lemma rt_tunnel_never_inband_once_agreed : forall s d src bs g, rt_reach ch1 sh4 ch2 sh3 s ->
+  In (src, bs, g) (rt_outs d (r_x s)) -> rt_is_tunnel_src src = true -> g = false.
+Proof.
+  intros s d src bs g Hr Hin Hs. apply rt_reach_inv in Hr. destruct Hr as (_ & _ & (_ & _ & _ & _ & _ & _ & X7) & _).
+  exact (X7 d _ Hin Hs).
+Qed.
+
+(* what the relay does with a chunk it reads in-band while tunnelConnected is set, in every state it can be in
+   (every program point of its handshake, before and after): it passes it on in-band, unchanged, at once — or, while
+   flushHandshakeBuffer holds the lock, waits; nothing else changes *)
+Lemma rt_inband_agreed_passes : forall s d bs s', rt_step ch1 sh4 ch2 sh3 s (RLInband d bs) = Some s' ->
+  r_tconnected s = true ->
+  s' = rt_with_x s (rt_add_out d (RsInband true, bs, true) (r_x s)).
+Proof.
+  intros s d bs s' Hstep Htc. unfold rt_step in Hstep. rewrite Htc in Hstep. destruct bs as [|b0 bs]; [discriminate Hstep|].
+  destruct (rt_handshaking s); [destruct (x_lock (r_x s)); [discriminate Hstep|]|]; injection Hstep as <-; reflexivity.
+Qed.
+
+(* what is in a handshake buffer: in-band chunks that arrived before the agreement, chunks of the pair in tunnelRelay *)
+Lemma rt_parked_from_adopted : forall s d x, rt_reach ch1 sh4 ch2 sh3 s -> In x (rt_buf d (r_x s)) ->
+  fst x = RsInband false \/
+  exists c p, fst x = rt_tag d c /\ r_trelay s = Some c /\ nth_error (r_pairs s) c = Some p /\ p_won p <> None.
+Proof.
+  intros s d x Hr Hx. pose proof (rt_reach_inv s Hr) as Hinv. pose proof Hinv as (_ & (_ & _ & _ & G4) & (X1 & _) & _).
+  specialize (X1 d x Hx). unfold rt_buf_ok in X1. destruct (fst x) as [c|c| |g] eqn:E.
+  - destruct X1 as [-> Ht]. right. exists c.
+    pose proof (G4 c Ht) as Hlt. destruct (nth_error (r_pairs s) c) as [p|] eqn:Ep; [|apply nth_error_None in Ep; lia].
+    exists p. split; [reflexivity|]. split; [exact Ht|]. split; [reflexivity|]. exact (rt_trelay_won s c p Hinv Ht Ep).
+  - destruct X1 as [-> Ht]. right. exists c.
+    pose proof (G4 c Ht) as Hlt. destruct (nth_error (r_pairs s) c) as [p|] eqn:Ep; [|apply nth_error_None in Ep; lia].
+    exists p. split; [reflexivity|]. split; [exact Ht|]. split; [reflexivity|]. exact (rt_trelay_won s c p Hinv Ht Ep).
+  - destruct X1.
+  - left. rewrite X1. reflexivity.
 Qed.
 
 (* a pump, a relay back-pointer: only on a pair that won *)
@@ -977,22 +1228,20 @@ Proof.
   apply (rt_local_used_won c p b d (HL c p Hn) Hb). destruct Hor as [H|H]; auto.
 Qed.
 
-(* what a pump handed to the relay's handshake buffer came from a connection of a pair that won *)
-Lemma rt_parked_from_adopted : forall s x, rt_reach ch1 sh4 ch2 sh3 s -> In x (r_parked s) ->
-  exists c p, (fst x = RsCli c \/ fst x = RsSrv c) /\ nth_error (r_pairs s) c = Some p /\ p_won p <> None.
-Proof. intros s x Hr Hx. apply rt_reach_inv in Hr. destruct Hr as (_ & _ & HP & _). exact (HP x Hx). Qed.
-
-(* the relay's own sends go into the bridge only when it holds an adopted — hence authenticated — pair *)
-Lemma rt_inject_only_adopted : forall s d bs s', rt_reach ch1 sh4 ch2 sh3 s ->
-  rt_step ch1 sh4 ch2 sh3 s (RLInject d bs) = Some s' ->
-  exists c p, r_trelay s = Some c /\ r_tconnected s = true /\ nth_error (r_pairs s) c = Some p /\
-    p_first p = Some ch1 /\ p_sfirst p = Some sh3.
+(* the relay's own writes go into a bridge only while tunnelRelay holds a pair — an authenticated one — and
+   tunnelConnected is set; otherwise in-band *)
+Lemma rt_route_only_adopted : forall s d y pc lk s', rt_reach ch1 sh4 ch2 sh3 s ->
+  rt_route s d y pc lk = Some s' ->
+  (exists c p, r_trelay s = Some c /\ r_tconnected s = true /\ nth_error (r_pairs s) c = Some p /\
+     p_first p = Some ch1 /\ p_sfirst p = Some sh3) \/
+  s' = rt_with_x s (rt_add_out d (y, r_tconnected s) (rt_set_pc_lock pc lk (r_x s))).
 Proof.
-  intros s d bs s' Hr Hstep. unfold rt_step in Hstep.
-  destruct (r_trelay s) as [c|] eqn:Et; [|discriminate Hstep].
-  destruct (r_tconnected s) eqn:Etc; [|discriminate Hstep].
-  destruct (nth_error (r_pairs s) c) as [p|] eqn:Ep; [|discriminate Hstep].
-  exists c, p. destruct (rt_adopted_authenticated s c p Hr Ep (or_introl Et)) as (H1 & H2 & _). auto.
+  intros s d y pc lk s' Hr Hstep. unfold rt_route in Hstep.
+  destruct (r_trelay s) as [c|] eqn:Et.
+  - destruct (r_tconnected s) eqn:Etc; [|right; injection Hstep as <-; reflexivity].
+    destruct (nth_error (r_pairs s) c) as [p|] eqn:Ep; [|discriminate Hstep].
+    left. exists c, p. destruct (rt_adopted_authenticated s c p Hr Ep (or_introl Et)) as (H1 & H2 & _). auto.
+  - right. destruct (r_tconnected s); injection Hstep as <-; reflexivity.
 Qed.
 
 (* the pair that lost the swap: both channels closed and empty, nothing ever crossed; each writer has either
@@ -1074,12 +1323,33 @@ Ltac spin_fin :=
   try congruence;
   try (eexists; eexists; repeat split; pproj; hproj; eproj; eauto; try congruence; fail).
 
+Lemma rt_spin_reset : forall s x c d p, nth_error (r_pairs s) c = Some p -> rt_spin_pair d p ->
+  exists p', nth_error (r_pairs (rt_reset s x)) c = Some p' /\ rt_spin_pair d p'.
+Proof.
+  intros s x c d p Hn Hsp. unfold rt_reset. rproj. destruct (r_trelay s) as [c0|]; [|exists p; auto].
+  apply (rt_spin_upd _ c c0 _ d p Hn Hsp). intros ->. destruct Hsp as (b & e & Hb & He & Hpm & Hcl). rewrite Hb. spin_fin.
+Qed.
+
+Lemma rt_spin_route : forall s d0 y pc lk s' c d p, rt_route s d0 y pc lk = Some s' ->
+  nth_error (r_pairs s) c = Some p -> rt_spin_pair d p ->
+  exists p', nth_error (r_pairs s') c = Some p' /\ rt_spin_pair d p'.
+Proof.
+  intros s d0 y pc lk s' c d p Hstep Hn Hsp. unfold rt_route in Hstep.
+  destruct (r_trelay s) as [c0|]; [destruct (r_tconnected s)|];
+    try (injection Hstep as <-; unfold rt_with_x; rproj; exists p; auto; fail).
+  - destruct (nth_error (r_pairs s) c0) as [q|] eqn:Eq; [|discriminate Hstep].
+    destruct (p_br q) as [b0|] eqn:Eb; [|discriminate Hstep].
+    destruct (rt_chan_has_room (rt_half_of d0 b0)); [|discriminate Hstep].
+    injection Hstep as <-; unfold rt_with_x, rt_upd_pair, rt_with_pairs; rproj;
+      (apply (rt_spin_upd _ c c0 _ d p Hn Hsp); intros ->; rewrite Hn in Eq; injection Eq as <-; spin_fin).
+Qed.
+
 Lemma rt_spin_step : forall s l s' c d, RInv s -> rt_spinning s c d ->
   rt_step ch1 sh4 ch2 sh3 s l = Some s' -> rt_spinning s' c d.
 Proof.
   intros s l s' c d Hinv Hspin Hstep. apply rt_spinning_iff in Hspin. apply rt_spinning_iff.
   destruct Hspin as (p & Hn & Hsp). pose proof Hinv as (HL & _). pose proof (HL c p Hn) as Hl.
-  destruct l as [script|c0|c0|c0| | |c0 dial fail|c0 d0|c0 d0 n park|c0 d0|c0 d0|c0 d0|v|v|d0 bs| ]; unfold rt_step in Hstep.
+  destruct l as [script|c0|c0|c0| | |c0 dial fail|c0 d0|c0 d0 n|c0 d0|c0 d0|c0 d0|v|d0 bs|k ok tun conf|bs| ]; unfold rt_step in Hstep.
   - injection Hstep as <-. unfold rt_with_pairs. rproj. exists p. split; [|exact Hsp].
     rewrite nth_error_app1; [exact Hn|]. eapply nth_error_lt. exact Hn.
   - destruct (nth_error (r_pairs s) c0) as [q|] eqn:Eq; [|discriminate Hstep].
@@ -1125,9 +1395,9 @@ Proof.
         apply (rt_spin_upd _ c c _ d p Hn Hsp). intros _. spin_fin.
     + (* another pair's handler: pair c is untouched *)
       apply Nat.eqb_neq in Ec.
-      assert (Hother : forall f t e k, exists p', nth_error (r_pairs (mkRt (upd c0 f (r_pairs s)) (r_lis s) (r_apc s) (r_connector s) t e k (r_parked s))) c = Some p' /\ rt_spin_pair d p').
+      assert (Hother : forall f t e k, exists p', nth_error (r_pairs (mkRt (upd c0 f (r_pairs s)) (r_lis s) (r_apc s) (r_connector s) t e k (r_x s))) c = Some p' /\ rt_spin_pair d p').
       { intros f t e k. rproj. apply (rt_spin_upd _ c c0 _ d p Hn Hsp). intros E. exfalso. exact (Ec E). }
-      assert (Hres : exists f lis t, s' = mkRt (upd c0 f (r_pairs s)) lis (r_apc s) (r_connector s) t (r_era s) (r_tconnected s) (r_parked s)).
+      assert (Hres : exists f lis t, s' = mkRt (upd c0 f (r_pairs s)) lis (r_apc s) (r_connector s) t (r_era s) (r_tconnected s) (r_x s)).
       { unfold rt_handler, rt_upd_pair, rt_with_pairs in Hstep.
         destruct (p_pc q) as [ | | | | |r| | | |r| | | | | | | | | |o]; try discriminate Hstep;
           repeat match type of Hstep with
@@ -1147,7 +1417,7 @@ Proof.
     destruct (h_pump (rt_half_of d0 b0)) eqn:Ep0; try discriminate Hstep.
     destruct (e_closed e0) eqn:Ec0; [cbn [negb andb] in Hstep; discriminate Hstep|]. cbn [negb andb] in Hstep.
     match type of Hstep with (if ?x then _ else _) = _ => destruct x end; [|discriminate Hstep].
-    destruct park; [destruct (b_relay b0)|destruct (rt_chan_has_room (rt_half_of d0 b0))]; try discriminate Hstep;
+    destruct (b_relay b0 && rt_handshaking s); [destruct (x_lock (r_x s))|destruct (rt_chan_has_room (rt_half_of d0 b0))]; try discriminate Hstep;
       injection Hstep as <-; unfold rt_upd_pair, rt_with_pairs; rproj;
       (apply (rt_spin_upd _ c c0 _ d p Hn Hsp); intros ->; rewrite Hn in Eq; injection Eq as <-; spin_fin).
   - destruct (nth_error (r_pairs s) c0) as [q|] eqn:Eq; [|discriminate Hstep].
@@ -1167,15 +1437,28 @@ Proof.
     destruct (h_pump (rt_half_of d0 b0)); try discriminate Hstep. destruct (e_closed e0); [|discriminate Hstep].
     injection Hstep as <-. exists p. auto.
   - injection Hstep as <-. rproj. exists p. auto.
-  - injection Hstep as <-. rproj. exists p. auto.
-  - destruct (r_trelay s) as [c0|]; [|discriminate Hstep]. destruct (r_tconnected s); [|discriminate Hstep].
-    destruct (nth_error (r_pairs s) c0) as [q|] eqn:Eq; [|discriminate Hstep].
-    destruct (p_br q) as [b0|] eqn:Eb; [|discriminate Hstep].
-    destruct (rt_chan_has_room (rt_half_of d0 b0)); [|discriminate Hstep].
-    injection Hstep as <-; unfold rt_upd_pair, rt_with_pairs; rproj;
-      (apply (rt_spin_upd _ c c0 _ d p Hn Hsp); intros ->; rewrite Hn in Eq; injection Eq as <-; spin_fin).
-  - injection Hstep as <-. rproj. destruct (r_trelay s) as [c0|]; [|exists p; auto].
-    apply (rt_spin_upd _ c c0 _ d p Hn Hsp). intros ->. destruct Hsp as (b & e & Hb & He & Hpm & Hcl). rewrite Hb. spin_fin.
+  - (* RLInband *)
+    destruct bs as [|b0 bs]; [discriminate Hstep|].
+    destruct (rt_handshaking s); [destruct (x_lock (r_x s)); [discriminate Hstep|]; destruct (r_tconnected s)|];
+      injection Hstep as <-; unfold rt_with_x; rproj; exists p; auto.
+  - (* RLHsRead *)
+    destruct (x_pc (r_x s)); try discriminate Hstep;
+      (match type of Hstep with (if ?x then _ else _) = _ => destruct x end; [|discriminate Hstep]);
+      injection Hstep as <-; unfold rt_with_x; rproj; exists p; auto.
+  - (* RLHs *)
+    destruct (x_pc (r_x s)) as [ |tn cf|cf| | | | |cf|cf|cf| ]; try discriminate Hstep.
+    + injection Hstep as <-. rproj. exists p. auto.
+    + exact (rt_spin_route _ _ _ _ _ _ c d p Hstep Hn Hsp).
+    + exact (rt_spin_route _ _ _ _ _ _ c d p Hstep Hn Hsp).
+    + exact (rt_spin_route _ _ _ _ _ _ c d p Hstep Hn Hsp).
+    + exact (rt_spin_route _ _ _ _ _ _ c d p Hstep Hn Hsp).
+    + destruct (x_bufin (r_x s)); [injection Hstep as <-; unfold rt_with_x; rproj; exists p; auto|].
+      apply (rt_spin_route _ _ _ _ _ _ c d p Hstep); [unfold rt_with_x; rproj; exact Hn|exact Hsp].
+    + destruct (x_bufout (r_x s)); [injection Hstep as <-; unfold rt_with_x; rproj; exists p; auto|].
+      apply (rt_spin_route _ _ _ _ _ _ c d p Hstep); [unfold rt_with_x; rproj; exact Hn|exact Hsp].
+    + destruct cf; injection Hstep as <-; [unfold rt_with_x; rproj; exists p; auto|exact (rt_spin_reset s _ c d p Hn Hsp)].
+  - (* RLReset *)
+    destruct (x_status (r_x s)); try discriminate Hstep. injection Hstep as <-. exact (rt_spin_reset s _ c d p Hn Hsp).
 Qed.
 
 Lemma rt_spins_for_ever : forall ls s s' c d, rt_reach ch1 sh4 ch2 sh3 s -> rt_spinning s c d ->
@@ -1284,6 +1567,14 @@ Lemma rt_skel_matches :
   rt_wrap_input_skel = expected_rt_wrap_input /\
   rt_wrap_output_skel = expected_rt_wrap_output /\
   rt_reset_to_standby_skel = expected_rt_reset_to_standby /\
+  rt_add_handshake_buffer_skel = expected_rt_add_handshake_buffer /\
+  rt_flush_handshake_buffer_skel = expected_rt_flush_handshake_buffer /\
+  rt_send_string_to_client_skel = expected_rt_send_string_to_client /\
+  rt_send_string_to_server_skel = expected_rt_send_string_to_server /\
+  rt_send_error_skel = expected_rt_send_error /\
+  rt_handshake_skel = expected_rt_handshake /\
+  rt_relay_wrap_input_skel = expected_rt_relay_wrap_input /\
+  rt_relay_wrap_output_skel = expected_rt_relay_wrap_output /\
   rt_sites_bufchan_send = expected_rt_sites_bufchan_send /\
   rt_sites_atomic_writes = expected_rt_sites_atomic_writes /\
   rt_sites_plain_writes = expected_rt_sites_plain_writes /\
@@ -1307,12 +1598,20 @@ Definition exr_greet (c : nat) (script : list pev) : list rt_label :=
   [exr_H c; exr_H c; exr_H c; RLHandler c (Some script) false; exr_H c; RLPeerS c; exr_H c; exr_H c; exr_H c; exr_H c].
 
 
+(* the relay's handshake fails on a junk line that arrives in-band: FAIL both ways, flush, resetToStandby(kRelayHandshaking) *)
+Definition exr_hs_fail : list rt_label :=
+  [RLInband RdIn [64; 10]; RLHsRead 2 false false false; RLHs [35; 70; 10]; RLHs [35; 70; 10]; RLHs []; RLHs []; RLHs []].
+(* the relay's handshake succeeds: ACT (tunnel = tun) and CFG arrive through the adopted pair c's connections *)
+Definition exr_hs_ok (c : nat) (tun : bool) : list rt_label :=
+  [RLPeerC c; RLPump c RdIn 2; RLHsRead 2 true tun true; RLHs []; RLHs [35; 65; 10];
+   RLPeerS c; RLPump c RdOut 2; RLHsRead 2 true false false; RLHs [35; 67; 10]; RLHs []; RLHs []; RLHs []].
+
 Lemma rt_at_most_one_ever_refuted :
   exists ls s p0 p1, rt_run exr_ch1 exr_sh4 exr_ch2 exr_sh3 rt_init ls = Some s /\
     r_pairs s = [p0; p1] /\ p_won p0 = Some 0%nat /\ p_won p1 = Some 1%nat /\ r_trelay s = Some 1%nat.
 Proof.
   exists ([RLConnect [PWrite exr_ch1]; RLConnect [PWrite exr_ch1]; RLAccept 0; RLCheck; RLAccept 1; RLCheck; RLPeerC 0]
-          ++ exr_greet 0 [PWrite exr_sh3] ++ [exr_H 0; exr_H 0; exr_H 0; exr_H 0; exr_H 0; RLReset; RLPeerC 1]
+          ++ exr_greet 0 [PWrite exr_sh3] ++ [exr_H 0; exr_H 0; exr_H 0; exr_H 0; exr_H 0] ++ exr_hs_fail ++ [RLPeerC 1]
           ++ exr_greet 1 [PWrite exr_sh3] ++ [exr_H 1]).
   vm_compute. do 3 eexists. repeat split.
 Qed.
